@@ -58,14 +58,18 @@ def IsRunOf (id : Id) : Event → Prop
 def NoRunSince (id : Id) (r r' : Root) : Prop :=
   ∃ evs, r'.trace = r.trace ++ evs ∧ ∀ ev ∈ evs, ¬ IsRunOf id ev
 
-/-- what every function of the mutual block guarantees (together with `RInvP`, `Grows`) -/
-structure Out (P : Id → Prop) (id : Id) (r r' : Root) : Prop where
-  i : RInvP P r'
-  g : Grows r r'
+/-- what every function of the mutual block guarantees about the kind discipline, about `id`, and
+about the trace -/
+structure DPost (id : Id) (r r' : Root) : Prop where
   k : KInv r'
   d : Det r' id
   m : SigMono r r'
   t : NoRunSince id r r'
+
+/-- … together with the bookkeeping invariant and its two-state facts -/
+structure Out (P : Id → Prop) (id : Id) (r r' : Root) : Prop extends DPost id r r' where
+  i : RInvP P r'
+  g : Grows r r'
 
 /-! ### A.2 generic lemmas -/
 
@@ -124,13 +128,14 @@ theorem NoRunSince.drop {id : Id} {r r' : Root} (h : NoRunSince id r r') :
   obtain ⟨evs, e, hn⟩ := h
   rw [e, List.drop_left]; exact hn
 
-theorem Out.trans {P : Id → Prop} {id : Id} {a b c : Root} (h1 : Out P id a b) (h2 : Out P id b c) :
-    Out P id a c :=
-  ⟨h2.i, h1.g.trans h2.g, h2.k, h2.d, h1.m.trans h2.m, h1.t.trans h2.t⟩
+theorem DPost.trans {id : Id} {a b c : Root} (h1 : DPost id a b) (h2 : DPost id b c) : DPost id a c :=
+  ⟨h2.k, h2.d, h1.m.trans h2.m, h1.t.trans h2.t⟩
 
-theorem Out.refl {P : Id → Prop} {id : Id} {r : Root} (hI : RInvP P r) (hK : KInv r) (hD : Det r id) :
-    Out P id r r :=
-  ⟨hI, Grows.refl _, hK, hD, SigMono.refl _, NoRunSince.refl _ _⟩
+theorem DPost.refl {id : Id} {r : Root} (hK : KInv r) (hD : Det r id) : DPost id r r :=
+  ⟨hK, hD, SigMono.refl _, NoRunSince.refl _ _⟩
+
+theorem Out.of {P : Id → Prop} {id : Id} {r r' : Root} (h : RInvP P r' ∧ Grows r r') (p : DPost id r r') :
+    Out P id r r' := { p with i := h.1, g := h.2 }
 
 /-- the general transfer of `KInv`: every closure stored afterwards was stored before or is good,
 every queued slot was queued before or is good -/
@@ -147,13 +152,13 @@ theorem KInv.transfer {r r' : Root} (h : KInv r) (hm : SigMono r r')
 
 /-- a transformation that leaves the arena alone (`tracker`, `current`, `batching`, `nextTag`; the
 queue and the trace as stated) -/
-theorem Out.of_nodes_eq {P : Id → Prop} {id : Id} {r r' : Root} (hI : RInvP P r) (hK : KInv r)
-    (hD : Det r id) (hn : r'.nodes = r.nodes) (hcur : ∀ c, r'.current = some c → c < r.nodes.size)
+theorem DPost.of_nodes_eq {id : Id} {r r' : Root} (hK : KInv r)
+    (hD : Det r id) (hn : r'.nodes = r.nodes)
     (hq : ∀ q ∈ r'.queue, q ∈ r.queue ∨ (q < r.nodes.size ∧ SigLike r q))
-    (ht : NoRunSince id r r') : Out P id r r' := by
+    (ht : NoRunSince id r r') : DPost id r r' := by
   have hg := Root.get?_congr_nodes hn
   have hm := SigMono.of_nodes_eq hn
-  refine ⟨hI.congr hn hcur, Grows.of_nodes_eq hn, hK.transfer hm ?_ ?_, ⟨by rw [hn]; exact hD.lt, ?_⟩, hm, ht⟩
+  refine ⟨hK.transfer hm ?_ ?_, ⟨by rw [hn]; exact hD.lt, ?_⟩, hm, ht⟩
   · rintro cl ⟨i, n, hi, hc⟩
     exact .inl ⟨i, n, by rw [← hg]; exact hi, hc⟩
   · intro q hqm
@@ -161,6 +166,11 @@ theorem Out.of_nodes_eq {P : Id → Prop} {id : Id} {r r' : Root} (hI : RInvP P 
     · exact .inl h1
     · exact .inr ⟨by rw [hn]; exact h1, h2.congr hn⟩
   · intro j n hj; exact hD.free j n (by rw [← hg]; exact hj)
+
+/-- the same when queue and trace are kept too -/
+theorem DPost.same {id : Id} {r r' : Root} (hK : KInv r) (hD : Det r id) (hn : r'.nodes = r.nodes)
+    (hq : r'.queue = r.queue) (ht : r'.trace = r.trace) : DPost id r r' :=
+  DPost.of_nodes_eq hK hD hn (fun _ h => .inl (hq ▸ h)) (NoRunSince.of_eq ht)
 
 /-! ### A.3 elementary steps -/
 
@@ -197,7 +207,7 @@ theorem EStep.sigMono {id : Id} {r r' : Root} (h : EStep id r r') : SigMono r r'
   exact s a b
 
 theorem EStep.kinv {id : Id} {r r' : Root} (h : EStep id r r') (hK : KInv r) : KInv r' := by
-  refine hK.transfer h.sigMono ?_ (fun q hq => .inl (h.queue ▸ hq))
+  refine hK.transfer h.sigMono ?_ (fun _ hq => .inl (h.queue ▸ hq))
   rintro cl ⟨i, n', hi, hc⟩
   obtain ⟨n, hn, _, c, l, _⟩ := h.back i n' hi
   refine .inl ⟨i, n, hn, ?_⟩
@@ -211,9 +221,9 @@ theorem EStep.det {id : Id} {r r' : Root} (h : EStep id r r') (hD : Det r id) : 
   obtain ⟨n, hn, _, _, _, d⟩ := h.back j n' hj
   exact hD.free j n hn (d hm)
 
-theorem EStep.out {P : Id → Prop} {id : Id} {r r' : Root} (h : EStep id r r')
-    (hi : RInvP P r' ∧ Grows r r') (hK : KInv r) (hD : Det r id) : Out P id r r' :=
-  ⟨hi.1, hi.2, h.kinv hK, h.det hD, h.sigMono, NoRunSince.of_eq h.trace⟩
+theorem EStep.dpost {id : Id} {r r' : Root} (h : EStep id r r') (hK : KInv r) (hD : Det r id) :
+    DPost id r r' :=
+  ⟨h.kinv hK, h.det hD, h.sigMono, NoRunSince.of_eq h.trace⟩
 
 /-- every slot is mapped by a function that keeps callback, value and cleanups and does not add `id`
 to the `dependents` list -/
@@ -344,5 +354,2510 @@ theorem EStep.unlink {id : Id} {r r2 : Root} {cur : Id} {n : Node} (hnd : NoDang
   refine ⟨rfl, rfl, rfl, fun hd => ?_⟩
   simp only [unlinked, List.mem_filter] at hd
   exact hd.1
+
+/-! ### A.4 the steps that create something -/
+
+theorem dpost_createNode {id : Id} {r r' : Root} {v : Option Int} {nid : Id} (hK : KInv r) (hD : Det r id)
+    (hc : createNode r v = .ok (r', nid)) :
+    DPost id r r' ∧ ∃ n', r'.get? nid = some n' ∧ n'.value = v ∧ n'.callback = none := by
+  obtain ⟨hid, hget, hsz, _, _, _, hq, _, _, htr⟩ := createNode_get? hc
+  have back : ∀ j m', r'.get? j = some m' →
+      (j = r.nodes.size ∧ m' = addChild r.current nid j (freshNode v r.current)) ∨
+      (∃ m, r.get? j = some m ∧ m' = addChild r.current nid j m) := by
+    intro j m' h
+    rw [hget] at h
+    by_cases hj : j = r.nodes.size
+    · left
+      rw [if_pos hj] at h
+      simp only [Option.map_some, Option.some.injEq] at h
+      exact ⟨hj, h.symm⟩
+    · right
+      rw [if_neg hj, Option.map_eq_some_iff] at h
+      obtain ⟨m, hm, e⟩ := h
+      exact ⟨m, hm, e.symm⟩
+  have hm : SigMono r r' := by
+    refine ⟨by rw [hsz]; exact Nat.le_succ _, ?_⟩
+    intro j hj hs n' hn'
+    rcases back j n' hn' with ⟨e, _⟩ | ⟨m, hmm, rfl⟩
+    · exact absurd e (Nat.ne_of_lt hj)
+    · exact hs m hmm
+  refine ⟨⟨hK.transfer hm ?_ (fun _ h => .inl (hq ▸ h)), ⟨by rw [hsz]; exact Nat.lt_succ_of_lt hD.lt, ?_⟩, hm,
+    NoRunSince.of_eq htr⟩, ?_⟩
+  · rintro cl ⟨i, n', hi, hcl⟩
+    rcases back i n' hi with ⟨_, rfl⟩ | ⟨m, hmm, rfl⟩
+    · simp [addChild, freshNode] at hcl
+    · exact .inl ⟨i, m, hmm, hcl⟩
+  · intro j n' hj
+    rcases back j n' hj with ⟨_, rfl⟩ | ⟨m, hmm, rfl⟩
+    · simp [addChild, freshNode]
+    · exact hD.free j m hmm
+  · refine ⟨addChild r.current nid nid (freshNode v r.current), ?_, rfl, rfl⟩
+    rw [hget, hid]; simp
+
+/-- the end of a run (`createSelector`, `runNodeUpdate`) of a computation other than `id` -/
+theorem dpost_finish {id : Id} {r : Root} {deps : List Id} {cur : Id} {nd n' : Node} (hK : KInv r)
+    (hD : Det r id) (hne : cur ≠ id) (hd : r.get? cur = some nd) (hv : nd.value = none)
+    (e1 : n'.dependents = (linked (deps.filter r.alive) cur cur nd).dependents)
+    (e5 : n'.cleanups = nd.cleanups)
+    (e7 : ∀ eq cl, n'.callback = some (eq, cl) → EnvK r cl.env) :
+    DPost id r ((createDependencyLink r deps cur).setNode cur n') := by
+  have hget := fun j => finish_get? (deps := deps) hd n' j
+  obtain ⟨s1, _, _, _, s5, _, _, s8⟩ :=
+    (createDependencyLink_sameFrame r deps cur).trans (SameFrame.setNode _ cur n')
+  generalize (createDependencyLink r deps cur).setNode cur n' = r' at *
+  have hm : SigMono r r' := by
+    refine ⟨by rw [s1]; exact Nat.le_refl _, ?_⟩
+    intro j _ hs m' hm'
+    rw [hget] at hm'
+    split at hm'
+    · rename_i hj; subst hj
+      exact absurd hv (hs nd hd).2
+    · rw [Option.map_eq_some_iff] at hm'
+      obtain ⟨m, hmm, rfl⟩ := hm'
+      exact hs m hmm
+  refine ⟨hK.transfer hm ?_ (fun _ h => .inl (s5 ▸ h)), ⟨by rw [s1]; exact hD.lt, ?_⟩, hm, NoRunSince.of_eq s8⟩
+  · rintro cl ⟨i, m', hi, hcl⟩
+    rw [hget] at hi
+    split at hi
+    · rename_i hj; subst hj
+      cases hi
+      rcases hcl with hcl | ⟨eq, hcl⟩
+      · exact .inl ⟨i, nd, hd, .inl (e5 ▸ hcl)⟩
+      · exact .inr ((e7 eq cl hcl).mono hm)
+    · rw [Option.map_eq_some_iff] at hi
+      obtain ⟨m, hmm, rfl⟩ := hi
+      exact .inl ⟨i, m, hmm, hcl⟩
+  · intro j m' hj hmem
+    rw [hget] at hj
+    split at hj
+    · rename_i hjc; subst hjc
+      cases hj
+      rw [e1] at hmem
+      simp only [linked, List.mem_append, List.mem_replicate] at hmem
+      rcases hmem with h | ⟨_, h⟩
+      · exact hD.free j nd hd h
+      · exact hne h.symm
+    · rw [Option.map_eq_some_iff] at hj
+      obtain ⟨m, hmm, rfl⟩ := hj
+      simp only [linked, List.mem_append, List.mem_replicate] at hmem
+      rcases hmem with h | ⟨_, h⟩
+      · exact hD.free j m hmm h
+      · exact hne h.symm
+
+/-- `runNodeUpdate` on a live node without callback fails (`unwrap()` on `None`) -/
+theorem runNodeUpdate_no_callback {P : Id → Prop} {f : Nat} {r r' : Root} {cur : Id} {n : Node}
+    (hI : RInvP P r) (hn : r.get? cur = some n) (hc : n.callback = none) :
+    runNodeUpdate f r cur ≠ .ok r' := by
+  intro hx
+  cases f with
+  | zero => simp [runNodeUpdate] at hx
+  | succ f =>
+    simp only [runNodeUpdate, hn] at hx
+    split at hx
+    · cases hx
+    · rename_i r2 h2
+      obtain ⟨_, _, _, _, _, hn2⟩ := hI.unlink hn h2
+      rw [hn2] at hx
+      simp only [unlinked, hc] at hx
+      cases hx
+
+/-! ### A.5 the statements of the induction -/
+
+/-- one statement per function of the mutual block, at fuel `f`, about the fixed slot `id` -/
+structure DAll (id : Id) (f : Nat) : Prop where
+  body : ∀ (P : Id → Prop) r c b r' c', RInvP P r → KInv r → Det r id → EnvK r c.env →
+    execBody f r c b = .ok (r', c') → Out P id r r' ∧ EnvK r' c'.env
+  inner : ∀ (P : Id → Prop) r c b r' c', RInvP P r → KInv r → Det r id → EnvK r c.env →
+    execInner f r c b = .ok (r', c') → Out P id r r' ∧ EnvK r' c'.env
+  stmt : ∀ (P : Id → Prop) r c s r' c', RInvP P r → KInv r → Det r id → EnvK r c.env →
+    execStmt f r c s = .ok (r', c') → Out P id r r' ∧ EnvK r' c'.env
+  closure : ∀ (P : Id → Prop) r cl r' v obs, RInvP P r → KInv r → Det r id → EnvK r cl.env →
+    runClosure f r cl = .ok (r', v, obs) → Out P id r r'
+  selector : ∀ (P : Id → Prop) r eq cl r' nid, RInvP P r → KInv r → Det r id → EnvK r cl.env →
+    createSelector f r eq cl = .ok (r', nid) → Out P id r r'
+  update : ∀ (P : Id → Prop) r cur r', RInvP P r → KInv r → Det r id → cur ≠ id →
+    runNodeUpdate f r cur = .ok r' → Out P id r r'
+  loop : ∀ (P : Id → Prop) r l r', RInvP P r → KInv r → Det r id → (id ∈ l → SigLike r id) →
+    propagateLoop f r l = .ok r' → Out P id r r'
+  nodeUpdates : ∀ (P : Id → Prop) r l r', RInvP P r → KInv r → Det r id → (id ∈ l → SigLike r id) →
+    propagateNodeUpdates f r l = .ok r' → Out P id r r'
+  updates : ∀ (P : Id → Prop) r s r', RInvP P r → KInv r → Det r id → s < r.nodes.size → SigLike r s →
+    propagateUpdates f r s = .ok r' → Out P id r r'
+  dnode : ∀ (P : Id → Prop) r x r', RInvP P r → KInv r → Det r id →
+    disposeNode f r x = .ok r' → Out P id r r'
+  dchildren : ∀ (P : Id → Prop) r x r', RInvP P r → KInv r → Det r id →
+    disposeChildren f r x = .ok r' → Out P id r r'
+  cleanups : ∀ (P : Id → Prop) r cls r', RInvP P r → KInv r → Det r id → (∀ cl ∈ cls, EnvK r cl.env) →
+    runCleanups f r cls = .ok r' → Out P id r r'
+  dlist : ∀ (P : Id → Prop) r cs r', RInvP P r → KInv r → Det r id →
+    disposeList f r cs = .ok r' → Out P id r r'
+
+theorem dAll_zero (id : Id) : DAll id 0 := by
+  constructor <;> intros <;> simp_all [execBody, execInner, execStmt, runClosure, createSelector,
+    runNodeUpdate, propagateLoop, propagateNodeUpdates, propagateUpdates, disposeNode, disposeChildren,
+    runCleanups, disposeList]
+
+/-! ### A.6 the functions -/
+
+theorem d_body {id : Id} {f : Nat} (ih : DAll id f) (P : Id → Prop) (r : Root) (c : Ctx) (b : Body)
+    (r' : Root) (c' : Ctx) (hI : RInvP P r) (hK : KInv r) (hD : Det r id) (hE : EnvK r c.env)
+    (hx : execBody (f + 1) r c b = .ok (r', c')) : DPost id r r' ∧ EnvK r' c'.env := by
+  cases b with
+  | nil =>
+    simp only [execBody, Except.ok.injEq, Prod.mk.injEq] at hx
+    obtain ⟨rfl, rfl⟩ := hx
+    exact ⟨DPost.refl hK hD, hE⟩
+  | cons s rest =>
+    simp only [execBody] at hx
+    split at hx
+    · cases hx
+    · rename_i r1 c1 h1
+      obtain ⟨o1, e1⟩ := ih.stmt P r c s r1 c1 hI hK hD hE h1
+      obtain ⟨o2, e2⟩ := ih.body P r1 c1 rest r' c' o1.i o1.k o1.d e1 hx
+      exact ⟨o1.toDPost.trans o2.toDPost, e2⟩
+
+theorem d_inner {id : Id} {f : Nat} (ih : DAll id f) (P : Id → Prop) (r : Root) (c : Ctx) (b : Body)
+    (r' : Root) (c' : Ctx) (hI : RInvP P r) (hK : KInv r) (hD : Det r id) (hE : EnvK r c.env)
+    (hx : execInner (f + 1) r c b = .ok (r', c')) : DPost id r r' ∧ EnvK r' c'.env := by
+  simp only [execInner] at hx
+  split at hx
+  · cases hx
+  · rename_i r1 c1 h1
+    simp only [Except.ok.injEq, Prod.mk.injEq] at hx
+    obtain ⟨rfl, rfl⟩ := hx
+    obtain ⟨o1, _⟩ := ih.body P r c b r1 c1 hI hK hD hE h1
+    exact ⟨o1.toDPost, hE.mono o1.m⟩
+
+theorem d_closure {id : Id} {f : Nat} (ih : DAll id f) (P : Id → Prop) (r : Root) (cl : Closure)
+    (r' : Root) (v : Int) (obs : List Obs) (hI : RInvP P r) (hK : KInv r) (hD : Det r id)
+    (hE : EnvK r cl.env) (hx : runClosure (f + 1) r cl = .ok (r', v, obs)) : DPost id r r' := by
+  simp only [runClosure] at hx
+  split at hx
+  · cases hx
+  · rename_i r1 c1 h1
+    simp only [Except.ok.injEq, Prod.mk.injEq] at hx
+    obtain ⟨rfl, _, _⟩ := hx
+    exact (ih.body P r ⟨cl.env, 0, []⟩ cl.body r1 c1 hI hK hD hE h1).1.toDPost
+
+theorem d_cleanups {id : Id} {f : Nat} (ih : DAll id f) (P : Id → Prop) (r : Root) (cls : List Closure)
+    (r' : Root) (hI : RInvP P r) (hK : KInv r) (hD : Det r id) (hE : ∀ cl ∈ cls, EnvK r cl.env)
+    (hx : runCleanups (f + 1) r cls = .ok r') : DPost id r r' := by
+  cases cls with
+  | nil =>
+    simp only [runCleanups, Except.ok.injEq] at hx
+    subst hx; exact DPost.refl hK hD
+  | cons cl cls =>
+    simp only [runCleanups] at hx
+    split at hx
+    · cases hx
+    · rename_i r1 v obs h1
+      have o1 := ih.closure P r cl r1 v obs hI hK hD (hE cl (by simp)) h1
+      obtain ⟨i2, _⟩ := o1.i.same (r' := { r1 with trace := r1.trace ++ [.cleanup cl.tag obs] }) rfl rfl
+      have p2 : DPost id r1 { r1 with trace := r1.trace ++ [.cleanup cl.tag obs] } :=
+        DPost.of_nodes_eq o1.k o1.d rfl (fun _ h => .inl h) (NoRunSince.snoc rfl (by simp [IsRunOf]))
+      have o3 := ih.cleanups P _ cls r' i2 p2.k p2.d
+        (fun cl' hc => (hE cl' (by simp [hc])).mono (o1.m.trans p2.m)) hx
+      exact (o1.toDPost.trans p2).trans o3.toDPost
+
+theorem d_dlist {id : Id} {f : Nat} (ih : DAll id f) (P : Id → Prop) (r : Root) (cs : List Id) (r' : Root)
+    (hI : RInvP P r) (hK : KInv r) (hD : Det r id) (hx : disposeList (f + 1) r cs = .ok r') :
+    DPost id r r' := by
+  cases cs with
+  | nil =>
+    simp only [disposeList, Except.ok.injEq] at hx
+    subst hx; exact DPost.refl hK hD
+  | cons c cs =>
+    simp only [disposeList] at hx
+    split at hx
+    · cases hx
+    · rename_i r1 h1
+      have o1 := ih.dnode P r c r1 hI hK hD h1
+      have o2 := ih.dlist P r1 cs r' o1.i o1.k o1.d hx
+      exact o1.toDPost.trans o2.toDPost
+
+theorem d_dnode {id : Id} {f : Nat} (ih : DAll id f) (P : Id → Prop) (r : Root) (x : Id) (r' : Root)
+    (hI : RInvP P r) (hK : KInv r) (hD : Det r id) (hx : disposeNode (f + 1) r x = .ok r') :
+    DPost id r r' := by
+  simp only [disposeNode] at hx
+  split at hx
+  · cases hx
+  · rename_i r1 h1
+    simp only [Except.ok.injEq] at hx
+    subst hx
+    obtain ⟨i0, _⟩ := hI.unsubscribe x
+    have p0 := (EStep.unsubscribe (id := id) hI.nd hI.sym x).dpost hK hD
+    have o1 := ih.dchildren P (unsubscribe r x) x r1 i0 p0.k p0.d h1
+    have p2 := (EStep.removeNode (id := id) o1.i.nd o1.i.sym x).dpost o1.k o1.d
+    exact (p0.trans o1.toDPost).trans p2
+
+theorem d_loop {id : Id} {f : Nat} (ih : DAll id f) (P : Id → Prop) (r : Root) (l : List Id) (r' : Root)
+    (hI : RInvP P r) (hK : KInv r) (hD : Det r id) (hl : id ∈ l → SigLike r id)
+    (hx : propagateLoop (f + 1) r l = .ok r') : DPost id r r' := by
+  cases l with
+  | nil =>
+    simp only [propagateLoop, Except.ok.injEq] at hx
+    subst hx; exact DPost.refl hK hD
+  | cons node rest =>
+    simp only [propagateLoop] at hx
+    split at hx
+    · exact (ih.loop P r rest r' hI hK hD (fun h => hl (by simp [h])) hx).toDPost
+    · rename_i n hn
+      have w := hI.node node n hn
+      have i1 := hI.setNode (n' := { n with mark := .none }) hn rfl rfl rfl rfl ⟨w.run, w.cleanups, w.callback⟩
+      have p1 := (EStep.setNode (id := id) (n' := { n with mark := .none }) hn (fun a b => ⟨a, b⟩)
+        (fun _ _ h => h) (fun _ h => h) (fun h => h)).dpost hK hD
+      have hn1 : (r.setNode node { n with mark := .none }).get? node = some { n with mark := .none } :=
+        Root.get?_setNode_self hn _
+      split at hx
+      · split at hx
+        · cases hx
+        · rename_i r2 h2
+          have hne : node ≠ id := by
+            rintro rfl
+            have hs := hl (by simp)
+            exact runNodeUpdate_no_callback i1 hn1 (hs n hn).1 h2
+          have o2 := ih.update P _ node r2 i1 p1.k p1.d hne h2
+          have o3 := ih.loop P r2 rest r' o2.i o2.k o2.d
+            (fun h => (p1.m.trans o2.m).sig id hD.lt (hl (by simp [h]))) hx
+          exact (p1.trans o2.toDPost).trans o3.toDPost
+      · have o3 := ih.loop P _ rest r' i1 p1.k p1.d
+          (fun h => p1.m.sig id hD.lt (hl (by simp [h]))) hx
+        exact p1.trans o3.toDPost
+
+theorem d_nodeUpdates {id : Id} {f : Nat} (ih : DAll id f) (P : Id → Prop) (r : Root) (l : List Id)
+    (r' : Root) (hI : RInvP P r) (hK : KInv r) (hD : Det r id) (hl : id ∈ l → SigLike r id)
+    (hx : propagateNodeUpdates (f + 1) r l = .ok r') : DPost id r r' := by
+  simp only [propagateNodeUpdates] at hx
+  split at hx
+  · cases hx
+  · rename_i r1 buf h1
+    obtain ⟨i1, _⟩ := hI.visitStarts l h1
+    obtain ⟨i1', _⟩ := i1.resetMarks l
+    have p1 := (EStep.visitStarts (id := id) l h1).dpost hK hD
+    have p1' := (EStep.resetMarks id l r1).dpost p1.k p1.d
+    have hmem : id ∈ buf.reverse → SigLike (resetMarks r1 l) id := by
+      intro hm
+      rcases visitStarts_mem l h1 id (List.mem_reverse.1 hm) with h | h | ⟨a, na, hna, hi⟩
+      · cases h
+      · exact (p1.m.trans p1'.m).sig id hD.lt (hl h)
+      · exact absurd hi (hD.free a na hna)
+    have o2 := ih.loop P _ buf.reverse r' i1' p1'.k p1'.d hmem hx
+    exact (p1.trans p1').trans o2.toDPost
+
+theorem d_updates {id : Id} {f : Nat} (ih : DAll id f) (P : Id → Prop) (r : Root) (s : Id) (r' : Root)
+    (hI : RInvP P r) (hK : KInv r) (hD : Det r id) (hlt : s < r.nodes.size) (hs : SigLike r s)
+    (hx : propagateUpdates (f + 1) r s = .ok r') : DPost id r r' := by
+  simp only [propagateUpdates] at hx
+  split at hx
+  · simp only [Except.ok.injEq] at hx
+    subst hx
+    refine DPost.of_nodes_eq hK hD rfl ?_ (NoRunSince.of_eq rfl)
+    intro q hq
+    simp only [List.mem_append, List.mem_singleton] at hq
+    rcases hq with h | rfl
+    · exact .inl h
+    · exact .inr ⟨hlt, hs⟩
+  · exact (ih.nodeUpdates P r [s] r' hI hK hD
+      (fun h => by simp only [List.mem_singleton] at h; subst h; exact hs) hx).toDPost
+
+theorem d_dchildren {id : Id} {f : Nat} (ih : DAll id f) (P : Id → Prop) (r : Root) (x : Id) (r' : Root)
+    (hI : RInvP P r) (hK : KInv r) (hD : Det r id) (hx : disposeChildren (f + 1) r x = .ok r') :
+    DPost id r r' := by
+  simp only [disposeChildren] at hx
+  split at hx
+  · simp only [Except.ok.injEq] at hx
+    subst hx; exact DPost.refl hK hD
+  · rename_i n hn
+    split at hx
+    · cases hx
+    · rename_i r2 h2
+      split at hx
+      · cases hx
+      · rename_i r3 h3
+        simp only [Except.ok.injEq] at hx
+        subst hx
+        obtain ⟨ia, _⟩ := hI.detach hn
+        have pa := (EStep.setNode (id := id) (n' := { n with cleanups := [], children := [] }) hn
+          (fun a b => ⟨a, b⟩) (fun _ _ h => h) (fun _ h => by simp at h) (fun h => h)).dpost hK hD
+        obtain ⟨ib, _⟩ := ia.same
+          (r' := { (r.setNode x { n with cleanups := [], children := [] }) with tracker := none }) rfl rfl
+        have pb : DPost id (r.setNode x { n with cleanups := [], children := [] })
+            { (r.setNode x { n with cleanups := [], children := [] }) with tracker := none } :=
+          DPost.same pa.k pa.d rfl rfl rfl
+        have hEcl : ∀ cl ∈ n.cleanups, EnvK r cl.env := fun cl hc => hK.stored cl ⟨x, n, hn, .inl hc⟩
+        have o2 := ih.cleanups _ _ n.cleanups r2 ib pb.k pb.d
+          (fun cl hc => (hEcl cl hc).mono (pa.m.trans pb.m)) h2
+        obtain ⟨ic, _⟩ := o2.i.same
+          (r' := { r2 with tracker := (r.setNode x { n with cleanups := [], children := [] }).tracker }) rfl rfl
+        have pc : DPost id r2
+            { r2 with tracker := (r.setNode x { n with cleanups := [], children := [] }).tracker } :=
+          DPost.same o2.k o2.d rfl rfl rfl
+        have o3 := ih.dlist _ _ n.children r3 ic pc.k pc.d h3
+        have p4 := (EStep.modifyContext id r3 x).dpost o3.k o3.d
+        exact ((((pa.trans pb).trans o2.toDPost).trans pc).trans o3.toDPost).trans p4
+
+theorem d_selector {id : Id} {f : Nat} (ih : DAll id f) (P : Id → Prop) (r : Root) (eq : EqKind)
+    (cl : Closure) (r' : Root) (nid : Id) (hI : RInvP P r) (hK : KInv r) (hD : Det r id)
+    (hE : EnvK r cl.env) (hx : createSelector (f + 1) r eq cl = .ok (r', nid)) : DPost id r r' := by
+  simp only [createSelector] at hx
+  split at hx
+  · cases hx
+  · rename_i r1 id1 h1
+    obtain ⟨i1, g1, hid, hsz1, hcur1, htr1, n1, hn1, hv1, hd1⟩ := hI.createNode h1
+    obtain ⟨p1, _⟩ := dpost_createNode hK hD h1
+    have hid1 : id1 < r1.nodes.size := by rw [hsz1, hid]; exact Nat.lt_succ_self _
+    have hne : id1 ≠ id := by rw [hid]; exact Nat.ne_of_gt hD.lt
+    split at hx
+    · cases hx
+    · rename_i r2 v obs h2
+      have ia : RInvP P { r1 with current := some id1, tracker := some [] } :=
+        i1.congr rfl (by intro c hc; simp only [Option.some.injEq] at hc; subst hc; exact hid1)
+      have pa : DPost id r1 { r1 with current := some id1, tracker := some [] } :=
+        DPost.same p1.k p1.d rfl rfl rfl
+      have o2 := ih.closure P _ cl r2 v obs ia pa.k pa.d (hE.mono (p1.m.trans pa.m)) h2
+      have g2 := o2.g
+      generalize hr3 : ({ r2 with tracker := r1.tracker, current := r1.current, trace := r2.trace ++ [Event.run id1 obs v] } : Root) = r3 at hx
+      have hn3 : r3.nodes = r2.nodes := by subst hr3; rfl
+      have hc3 : r3.current = r1.current := by subst hr3; rfl
+      have i3 : RInvP P r3 := o2.i.congr hn3 (by
+        intro c hc; rw [hc3] at hc; exact Nat.lt_of_lt_of_le (i1.cur c hc) g2.size)
+      have p3 : DPost id r2 r3 := by
+        subst hr3
+        exact DPost.of_nodes_eq o2.k o2.d rfl (fun _ h => .inl h)
+          (NoRunSince.snoc rfl (by simpa [IsRunOf] using hne))
+      have p03 : DPost id r r3 := ((p1.trans pa).trans o2.toDPost).trans p3
+      cases hd3 : r3.get? id1 with
+      | none =>
+        rw [createDependencyLink_dead _ hd3, hd3] at hx
+        simp only [Except.ok.injEq, Prod.mk.injEq] at hx
+        obtain ⟨rfl, rfl⟩ := hx
+        exact p03
+      | some nd =>
+        have hv3 : nd.value = none := by
+          have hg : r3.get? id1 = r2.get? id1 := Root.get?_congr_nodes hn3 id1
+          rw [hg] at hd3
+          exact g2.run id1 n1 nd hn1 hv1 hd3
+        have h4 := createDependencyLink_alive (deps := r2.tracker.getD []) hd3
+        rw [h4] at hx
+        simp only [Except.ok.injEq, Prod.mk.injEq] at hx
+        obtain ⟨rfl, rfl⟩ := hx
+        have p4 := dpost_finish (deps := r2.tracker.getD [])
+          (n' := { linked ((r2.tracker.getD []).filter r3.alive) id1 id1 nd with
+            value := some v, callback := some (eq, cl) }) p03.k p03.d hne hd3 hv3 rfl rfl
+          (by
+            intro eq' cl' he
+            simp only [Option.some.injEq, Prod.mk.injEq] at he
+            obtain ⟨_, rfl⟩ := he
+            exact hE.mono p03.m)
+        exact p03.trans p4
+
+theorem d_update {id : Id} {f : Nat} (ih : DAll id f) (P : Id → Prop) (r : Root) (cur : Id) (r' : Root)
+    (hI : RInvP P r) (hK : KInv r) (hD : Det r id) (hne : cur ≠ id)
+    (hx : runNodeUpdate (f + 1) r cur = .ok r') : DPost id r r' := by
+  simp only [runNodeUpdate] at hx
+  split at hx
+  · cases hx
+  · rename_i n hn
+    split at hx
+    · cases hx
+    · rename_i r2 h2
+      obtain ⟨i2, g2, hsz2, _, _, hn2⟩ := hI.unlink hn h2
+      have p2 := (EStep.unlink (id := id) hI.nd hI.sym hn h2).dpost hK hD
+      rw [hn2] at hx
+      simp only at hx
+      split at hx
+      · cases hx
+      · cases hx
+      · rename_i eq cl old hcb hval
+        have w2 := i2.node cur _ hn2
+        have hEcl : EnvK r2 cl.env := p2.k.stored cl ⟨cur, _, hn2, .inr ⟨eq, hcb⟩⟩
+        generalize hr3 : r2.setNode cur _ = r3 at hx
+        have i3 : RInvP P r3 := by
+          subst hr3
+          exact i2.setNode hn2 rfl rfl rfl rfl ⟨fun _ => by simp [unlinked], w2.cleanups, by simp⟩
+        have p3 : DPost id r2 r3 := by
+          subst hr3
+          exact (EStep.setNode (id := id) (n' := { unlinked cur cur n with callback := none, value := none }) hn2
+            (fun a => by rw [hcb] at a; cases a) (fun _ _ h => by cases h)
+            (fun _ h => h) (fun h => h)).dpost p2.k p2.d
+        have hn3 : ∃ n3, r3.get? cur = some n3 ∧ n3.value = none := by
+          subst hr3
+          exact ⟨_, Root.get?_setNode_self hn2 _, rfl⟩
+        obtain ⟨n3, hn3, hv3⟩ := hn3
+        split at hx
+        · cases hx
+        · rename_i r4 h4
+          have o4 := ih.dchildren P r3 cur r4 i3 p3.k p3.d h4
+          have i4 := o4.i
+          have g4 := o4.g
+          split at hx
+          · cases hx
+          · rename_i r5 new obs h5
+            have hcur4 : cur < r4.nodes.size :=
+              Nat.lt_of_lt_of_le (Root.lt_size_of_get? hn3) g4.size
+            have ia : RInvP P { r4 with current := some cur, tracker := some [] } :=
+              i4.congr rfl (by intro c hc; simp only [Option.some.injEq] at hc; subst hc; exact hcur4)
+            have pa : DPost id r4 { r4 with current := some cur, tracker := some [] } :=
+              DPost.same o4.k o4.d rfl rfl rfl
+            have o5 := ih.closure P _ cl r5 new obs ia pa.k pa.d
+              (hEcl.mono ((p3.m.trans o4.m).trans pa.m)) h5
+            have i5 := o5.i
+            have g5 := o5.g
+            have g5' : Grows r4 r5 := ⟨g5.size, g5.dead, g5.run⟩
+            generalize hr6 : ({ r5 with tracker := r4.tracker, current := r4.current, trace := r5.trace ++ [Event.run cur obs new] } : Root) = r6 at hx
+            have hn6 : r6.nodes = r5.nodes := by subst hr6; rfl
+            have hc6 : r6.current = r4.current := by subst hr6; rfl
+            have i6 : RInvP P r6 := i5.congr hn6 (by
+              intro c hc; rw [hc6] at hc; exact Nat.lt_of_lt_of_le (i4.cur c hc) g5.size)
+            have p6 : DPost id r5 r6 := by
+              subst hr6
+              exact DPost.of_nodes_eq o5.k o5.d rfl (fun _ h => .inl h)
+                (NoRunSince.snoc rfl (by simpa [IsRunOf] using hne))
+            have g36 : Grows r3 r6 := (g4.trans g5').trans (Grows.of_nodes_eq hn6)
+            have p26 : DPost id r2 r6 := (((p3.trans o4.toDPost).trans pa).trans o5.toDPost).trans p6
+            have p06 : DPost id r r6 := p2.trans p26
+            cases hd6 : r6.get? cur with
+            | none =>
+              rw [createDependencyLink_dead _ hd6, hd6] at hx
+              simp only [Except.ok.injEq] at hx
+              subst hx
+              exact p06
+            | some nd =>
+              have hv6 : nd.value = none := g36.run cur n3 nd hn3 hv3 hd6
+              have h7 := createDependencyLink_alive (deps := r5.tracker.getD []) hd6
+              rw [h7] at hx
+              simp only [Except.ok.injEq] at hx
+              have key := fun vv : Int => dpost_finish (deps := r5.tracker.getD [])
+                (n' := { linked ((r5.tracker.getD []).filter r6.alive) cur cur nd with
+                  callback := some (eq, cl), value := some vv, dirty := false })
+                p06.k p06.d hne hd6 hv6 rfl rfl
+                (by
+                  intro eq' cl' he
+                  simp only [Option.some.injEq, Prod.mk.injEq] at he
+                  obtain ⟨_, rfl⟩ := he
+                  exact hEcl.mono p26.m)
+              split at hx
+              · subst hx
+                have p7 := key new
+                exact (p06.trans p7).trans ((EStep.markDirty id _ cur).dpost p7.k p7.d)
+              · subst hx
+                exact p06.trans (key old)
+
+/-! ### A.7 `execStmt`, statement by statement -/
+
+theorem trackAll_trace (c : Ctx) (l : List Nat) {r r' : Root} (hx : trackAll c r l = .ok r') :
+    r'.trace = r.trace := by
+  induction l generalizing r with
+  | nil => simp only [trackAll, Except.ok.injEq] at hx; subst hx; rfl
+  | cons x l ih =>
+    simp only [trackAll] at hx
+    split at hx
+    · cases hx
+    · split at hx
+      · cases hx
+      · rw [ih hx]; unfold track; split <;> rfl
+
+
+set_option linter.unusedSectionVars false
+
+section stmts
+variable {id : Id} {f : Nat} (ih : DAll id f) {P : Id → Prop} {r r' : Root} {c c' : Ctx}
+  (hI : RInvP P r) (hK : KInv r) (hD : Det r id) (hE : EnvK r c.env)
+include ih hI hK hD hE
+
+theorem d_read {h : Nat} (hx : execStmt (f + 1) r c (.read h) = .ok (r', c')) :
+    DPost id r r' ∧ EnvK r' c'.env := by
+  simp only [execStmt] at hx
+  split at hx
+  · cases hx
+  · split at hx
+    · cases hx
+    · split at hx
+      · cases hx
+      · simp only [Except.ok.injEq, Prod.mk.injEq] at hx
+        obtain ⟨rfl, rfl⟩ := hx
+        obtain ⟨a, _⟩ := track_nodes r ‹Handle›.id
+        obtain ⟨_, b, _⟩ := track_frame r ‹Handle›.id
+        have p := DPost.same (id := id) hK hD a b (by unfold track; split <;> rfl)
+        exact ⟨p, hE.mono p.m⟩
+
+theorem d_readU {h : Nat} (hx : execStmt (f + 1) r c (.readU h) = .ok (r', c')) :
+    DPost id r r' ∧ EnvK r' c'.env := by
+  simp only [execStmt] at hx
+  split at hx
+  · cases hx
+  · split at hx
+    · cases hx
+    · split at hx
+      · cases hx
+      · simp only [Except.ok.injEq, Prod.mk.injEq] at hx
+        obtain ⟨rfl, rfl⟩ := hx
+        exact ⟨DPost.refl hK hD, hE⟩
+
+theorem d_track {h : Nat} (hx : execStmt (f + 1) r c (.track h) = .ok (r', c')) :
+    DPost id r r' ∧ EnvK r' c'.env := by
+  simp only [execStmt] at hx
+  split at hx
+  · cases hx
+  · split at hx
+    · cases hx
+    · simp only [Except.ok.injEq, Prod.mk.injEq] at hx
+      obtain ⟨rfl, rfl⟩ := hx
+      obtain ⟨a, _⟩ := track_nodes r ‹Handle›.id
+      obtain ⟨_, b, _⟩ := track_frame r ‹Handle›.id
+      have p := DPost.same (id := id) hK hD a b (by unfold track; split <;> rfl)
+      exact ⟨p, hE.mono p.m⟩
+
+theorem d_ifpos {h : Nat} {t e : Body} (hx : execStmt (f + 1) r c (.ifpos h t e) = .ok (r', c')) :
+    DPost id r r' ∧ EnvK r' c'.env := by
+  simp only [execStmt] at hx
+  split at hx
+  · cases hx
+  · rename_i hd _
+    split at hx
+    · cases hx
+    · split at hx
+      · cases hx
+      · rename_i v _
+        obtain ⟨a, b⟩ := track_nodes r hd.id
+        obtain ⟨_, b', _⟩ := track_frame r hd.id
+        obtain ⟨i, _⟩ := hI.same a b
+        have p := DPost.same (id := id) hK hD a b' (by unfold track; split <;> rfl)
+        have hE1 : EnvK (track r hd.id) c.env := hE.mono p.m
+        split at hx
+        · obtain ⟨o2, e2⟩ := ih.inner P _ { c with acc := mix c.acc v, obs := c.obs ++ [.read hd.id v] } t r' c'
+            i p.k p.d hE1 hx
+          exact ⟨p.trans o2.toDPost, e2⟩
+        · obtain ⟨o2, e2⟩ := ih.inner P _ { c with acc := mix c.acc v, obs := c.obs ++ [.read hd.id v] } e r' c'
+            i p.k p.d hE1 hx
+          exact ⟨p.trans o2.toDPost, e2⟩
+
+/-- `untrack`, `component`, and the second half of `on` -/
+theorem d_untracked {b : Body} {prev : Option (List Id)}
+    (hx : (match execInner f { r with tracker := none } c b with
+      | .error e => .error e
+      | .ok (r, c) => .ok ({ r with tracker := prev }, c)) = (.ok (r', c') : Except Panic (Root × Ctx))) :
+    DPost id r r' ∧ EnvK r' c'.env := by
+  split at hx
+  · cases hx
+  · rename_i r1 c1 h1
+    simp only [Except.ok.injEq, Prod.mk.injEq] at hx
+    obtain ⟨rfl, rfl⟩ := hx
+    obtain ⟨i0, _⟩ := hI.same (r' := { r with tracker := none }) rfl rfl
+    have p0 : DPost id r { r with tracker := none } := DPost.same hK hD rfl rfl rfl
+    obtain ⟨o1, e1⟩ := ih.inner P _ c b r1 c1 i0 p0.k p0.d (hE.mono p0.m) h1
+    have p2 : DPost id r1 { r1 with tracker := prev } := DPost.same o1.k o1.d rfl rfl rfl
+    exact ⟨(p0.trans o1.toDPost).trans p2, e1.mono p2.m⟩
+
+theorem d_untrack {b : Body} (hx : execStmt (f + 1) r c (.untrack b) = .ok (r', c')) :
+    DPost id r r' ∧ EnvK r' c'.env := by
+  simp only [execStmt] at hx
+  exact d_untracked ih hI hK hD hE hx
+
+theorem d_component {b : Body} (hx : execStmt (f + 1) r c (.component b) = .ok (r', c')) :
+    DPost id r r' ∧ EnvK r' c'.env := by
+  simp only [execStmt] at hx
+  exact d_untracked ih hI hK hD hE hx
+
+theorem d_on {deps : List Nat} {b : Body} (hx : execStmt (f + 1) r c (.on deps b) = .ok (r', c')) :
+    DPost id r r' ∧ EnvK r' c'.env := by
+  simp only [execStmt] at hx
+  split at hx
+  · cases hx
+  · rename_i r1 h1
+    obtain ⟨a, b'⟩ := trackAll_nodes c deps h1
+    obtain ⟨_, q, _⟩ := trackAll_frame c deps h1
+    obtain ⟨i1, _⟩ := hI.same a b'
+    have p1 : DPost id r r1 := DPost.same hK hD a q (trackAll_trace c deps h1)
+    obtain ⟨p2, e2⟩ := d_untracked ih i1 p1.k p1.d (hE.mono p1.m) hx
+    exact ⟨p1.trans p2, e2⟩
+
+theorem d_signal {v : Int} (hx : execStmt (f + 1) r c (.signal v) = .ok (r', c')) :
+    DPost id r r' ∧ EnvK r' c'.env := by
+  simp only [execStmt] at hx
+  split at hx
+  · cases hx
+  · rename_i r1 nid h1
+    simp only [Except.ok.injEq, Prod.mk.injEq] at hx
+    obtain ⟨rfl, rfl⟩ := hx
+    obtain ⟨_, _, hid, hsz1, _⟩ := hI.createNode h1
+    obtain ⟨p1, n', hn', hv', hc'⟩ := dpost_createNode hK hD h1
+    refine ⟨p1, (hE.mono p1.m).snoc (by rw [hsz1, hid]; exact Nat.lt_succ_self _) ?_⟩
+    intro _ m hm
+    rw [hn'] at hm; cases hm
+    exact ⟨hc', by rw [hv']; simp⟩
+
+/-- `memo`, `selector`, `effect` -/
+theorem d_created {eq : EqKind} {b : Body} {kd : Kind} (hkd : kd ≠ .signal)
+    (hx : (match createSelector f r eq ⟨b, c.env, 0⟩ with
+      | .error e => .error e
+      | .ok (r, id) => .ok (r, { c with env := c.env ++ [⟨id, kd⟩] })) = (.ok (r', c') : Except Panic (Root × Ctx))) :
+    DPost id r r' ∧ EnvK r' c'.env := by
+  split at hx
+  · cases hx
+  · rename_i r1 nid h1
+    simp only [Except.ok.injEq, Prod.mk.injEq] at hx
+    obtain ⟨rfl, rfl⟩ := hx
+    have o1 := ih.selector P r eq ⟨b, c.env, 0⟩ r1 nid hI hK hD hE h1
+    obtain ⟨_, hid⟩ := (presAll f).selector P r eq ⟨b, c.env, 0⟩ r1 nid hI hE.envLt h1
+    exact ⟨o1.toDPost, (hE.mono o1.m).snoc hid (fun h => absurd h hkd)⟩
+
+theorem d_memo {b : Body} (hx : execStmt (f + 1) r c (.memo b) = .ok (r', c')) :
+    DPost id r r' ∧ EnvK r' c'.env := by
+  simp only [execStmt] at hx
+  exact d_created ih hI hK hD hE (by intro h; cases h) hx
+
+theorem d_selectorStmt {eq : EqKind} {b : Body} (hx : execStmt (f + 1) r c (.selector eq b) = .ok (r', c')) :
+    DPost id r r' ∧ EnvK r' c'.env := by
+  simp only [execStmt] at hx
+  exact d_created ih hI hK hD hE (by intro h; cases h) hx
+
+theorem d_effect {b : Body} (hx : execStmt (f + 1) r c (.effect b) = .ok (r', c')) :
+    DPost id r r' ∧ EnvK r' c'.env := by
+  simp only [execStmt] at hx
+  exact d_created ih hI hK hD hE (by intro h; cases h) hx
+
+theorem d_scope {b : Body} (hx : execStmt (f + 1) r c (.scope b) = .ok (r', c')) :
+    DPost id r r' ∧ EnvK r' c'.env := by
+  simp only [execStmt] at hx
+  split at hx
+  · cases hx
+  · rename_i r1 nid h1
+    obtain ⟨i1, g1, hid, hsz1, _⟩ := hI.createNode h1
+    obtain ⟨p1, _⟩ := dpost_createNode hK hD h1
+    have hid1 : nid < r1.nodes.size := by rw [hsz1, hid]; exact Nat.lt_succ_self _
+    split at hx
+    · cases hx
+    · rename_i r2 c2 h2
+      simp only [Except.ok.injEq, Prod.mk.injEq] at hx
+      obtain ⟨rfl, rfl⟩ := hx
+      have ia : RInvP P { r1 with current := some nid } :=
+        i1.congr rfl (by intro x hc; simp only [Option.some.injEq] at hc; subst hc; exact hid1)
+      have pa : DPost id r1 { r1 with current := some nid } := DPost.same p1.k p1.d rfl rfl rfl
+      obtain ⟨o2, e2⟩ := ih.inner P _ c b r2 c2 ia pa.k pa.d (hE.mono (p1.m.trans pa.m)) h2
+      have p3 : DPost id r2 { r2 with current := r1.current } := DPost.same o2.k o2.d rfl rfl rfl
+      refine ⟨((p1.trans pa).trans o2.toDPost).trans p3, (e2.mono p3.m).snoc ?_ (fun h => by cases h)⟩
+      exact Nat.lt_of_lt_of_le hid1 o2.g.size
+
+theorem d_set {h : Nat} {e : Ex} (hx : execStmt (f + 1) r c (.set h e) = .ok (r', c')) :
+    DPost id r r' ∧ EnvK r' c'.env := by
+  simp only [execStmt] at hx
+  split at hx
+  · cases hx
+  · rename_i hd hl
+    split at hx
+    · cases hx
+    · rename_i hk
+      split at hx
+      · cases hx
+      · rename_i r1 h1
+        split at hx
+        · cases hx
+        · rename_i r2 h2
+          simp only [Except.ok.injEq, Prod.mk.injEq] at hx
+          obtain ⟨rfl, rfl⟩ := hx
+          have hkind : hd.kind = .signal := by simpa using hk
+          obtain ⟨hlt, hsig⟩ := hE hd (lookup_ok hl).2
+          obtain ⟨i1, _⟩ := hI.setSilent h1
+          have p1 := (EStep.setSilent (id := id) h1).dpost hK hD
+          have o2 := ih.updates P r1 _ r2 i1 p1.k p1.d (Nat.lt_of_lt_of_le hlt p1.m.size)
+            (p1.m.sig hd.id hlt (hsig hkind)) h2
+          have p := p1.trans o2.toDPost
+          exact ⟨p, hE.mono p.m⟩
+
+theorem d_setSilentStmt {h : Nat} {e : Ex} (hx : execStmt (f + 1) r c (.setSilent h e) = .ok (r', c')) :
+    DPost id r r' ∧ EnvK r' c'.env := by
+  simp only [execStmt] at hx
+  split at hx
+  · cases hx
+  · split at hx
+    · cases hx
+    · split at hx
+      · cases hx
+      · rename_i r1 h1
+        simp only [Except.ok.injEq, Prod.mk.injEq] at hx
+        obtain ⟨rfl, rfl⟩ := hx
+        have p1 := (EStep.setSilent (id := id) h1).dpost hK hD
+        exact ⟨p1, hE.mono p1.m⟩
+
+theorem d_cleanupStmt {b : Body} (hx : execStmt (f + 1) r c (.cleanup b) = .ok (r', c')) :
+    DPost id r r' ∧ EnvK r' c'.env := by
+  simp only [execStmt] at hx
+  split at hx
+  · simp only [Except.ok.injEq, Prod.mk.injEq] at hx
+    obtain ⟨rfl, rfl⟩ := hx
+    exact ⟨DPost.refl hK hD, hE⟩
+  · rename_i cur _
+    split at hx
+    · cases hx
+    · rename_i n hn
+      simp only [Except.ok.injEq, Prod.mk.injEq] at hx
+      obtain ⟨rfl, rfl⟩ := hx
+      generalize hn' : ({ n with cleanups := n.cleanups ++ [⟨b, c.env, r.nextTag⟩] } : Node) = n'
+      have hget : ∀ j, (r.setNode cur n').get? j = if j = cur then some n' else r.get? j := by
+        intro j
+        rw [Root.get?_setNode]
+        by_cases hj : j = cur <;> simp [hj, Root.lt_size_of_get? hn]
+      obtain ⟨s1, _, _, _, s5, _, _, s8⟩ := SameFrame.setNode r cur n'
+      have hm : SigMono r (r.setNode cur n') := by
+        refine ⟨by rw [s1]; exact Nat.le_refl _, ?_⟩
+        intro j _ hs m' hm'
+        rw [hget] at hm'
+        split at hm'
+        · rename_i hj; subst hj; cases hm'; subst hn'
+          exact hs n hn
+        · exact hs m' hm'
+      have p1 : DPost id r (r.setNode cur n') := by
+        refine ⟨hK.transfer hm ?_ (fun _ h => .inl (s5 ▸ h)), ⟨by rw [s1]; exact hD.lt, ?_⟩, hm,
+          NoRunSince.of_eq s8⟩
+        · rintro cl ⟨i, m', hi, hcl⟩
+          rw [hget] at hi
+          split at hi
+          · rename_i hj; subst hj; cases hi; subst hn'
+            rcases hcl with hcl | hcl
+            · simp only [List.mem_append, List.mem_singleton] at hcl
+              rcases hcl with hcl | rfl
+              · exact .inl ⟨i, n, hn, .inl hcl⟩
+              · exact .inr (hE.mono hm)
+            · exact .inl ⟨i, n, hn, .inr hcl⟩
+          · exact .inl ⟨i, m', hi, hcl⟩
+        · intro j m' hj
+          rw [hget] at hj
+          split at hj
+          · rename_i hjc; subst hjc; cases hj; subst hn'
+            exact hD.free j n hn
+          · exact hD.free j m' hj
+      have p2 : DPost id (r.setNode cur n') { (r.setNode cur n') with nextTag := r.nextTag + 1 } :=
+        DPost.same p1.k p1.d rfl rfl rfl
+      exact ⟨p1.trans p2, hE.mono (p1.m.trans p2.m)⟩
+
+theorem d_dispose {h : Nat} (hx : execStmt (f + 1) r c (.dispose h) = .ok (r', c')) :
+    DPost id r r' ∧ EnvK r' c'.env := by
+  simp only [execStmt] at hx
+  split at hx
+  · cases hx
+  · split at hx
+    · cases hx
+    · rename_i r1 h1
+      simp only [Except.ok.injEq, Prod.mk.injEq] at hx
+      obtain ⟨rfl, rfl⟩ := hx
+      have o1 := ih.dnode P r _ r1 hI hK hD h1
+      exact ⟨o1.toDPost, hE.mono o1.m⟩
+
+theorem d_disposeCur (hx : execStmt (f + 1) r c .disposeCur = .ok (r', c')) :
+    DPost id r r' ∧ EnvK r' c'.env := by
+  simp only [execStmt] at hx
+  split at hx
+  · simp only [Except.ok.injEq, Prod.mk.injEq] at hx
+    obtain ⟨rfl, rfl⟩ := hx
+    exact ⟨DPost.refl hK hD, hE⟩
+  · split at hx
+    · cases hx
+    · rename_i r1 h1
+      simp only [Except.ok.injEq, Prod.mk.injEq] at hx
+      obtain ⟨rfl, rfl⟩ := hx
+      have o1 := ih.dnode P r _ r1 hI hK hD h1
+      exact ⟨o1.toDPost, hE.mono o1.m⟩
+
+theorem d_batch {b : Body} (hx : execStmt (f + 1) r c (.batch b) = .ok (r', c')) :
+    DPost id r r' ∧ EnvK r' c'.env := by
+  simp only [execStmt] at hx
+  split at hx
+  · cases hx
+  · rename_i r1 c1 h1
+    obtain ⟨i0, _⟩ := hI.same (r' := { r with batching := true }) rfl rfl
+    have p0 : DPost id r { r with batching := true } := DPost.same hK hD rfl rfl rfl
+    obtain ⟨o1, e1⟩ := ih.inner P _ c b r1 c1 i0 p0.k p0.d (hE.mono p0.m) h1
+    split at hx
+    · simp only [Except.ok.injEq, Prod.mk.injEq] at hx
+      obtain ⟨rfl, rfl⟩ := hx
+      exact ⟨p0.trans o1.toDPost, e1⟩
+    · split at hx
+      · cases hx
+      · rename_i r2 h2
+        simp only [Except.ok.injEq, Prod.mk.injEq] at hx
+        obtain ⟨rfl, rfl⟩ := hx
+        obtain ⟨i1', _⟩ := o1.i.same (r' := { r1 with batching := false, queue := [] }) rfl rfl
+        have p1' : DPost id r1 { r1 with batching := false, queue := [] } :=
+          DPost.of_nodes_eq o1.k o1.d rfl (fun _ h => by cases h) (NoRunSince.of_eq rfl)
+        have o2 := ih.nodeUpdates P _ r1.queue r2 i1' p1'.k p1'.d
+          (fun h => p1'.m.sig id o1.d.lt (o1.k.queue id h).2) h2
+        exact ⟨((p0.trans o1.toDPost).trans p1').trans o2.toDPost, e1.mono (p1'.m.trans o2.m)⟩
+
+theorem d_provide {ty : Nat} {e : Ex} (hx : execStmt (f + 1) r c (.provide ty e) = .ok (r', c')) :
+    DPost id r r' ∧ EnvK r' c'.env := by
+  simp only [execStmt] at hx
+  split at hx
+  · cases hx
+  · rename_i r1 h1
+    simp only [Except.ok.injEq, Prod.mk.injEq] at hx
+    obtain ⟨rfl, rfl⟩ := hx
+    have p1 := (EStep.provideContext (id := id) h1).dpost hK hD
+    exact ⟨p1, hE.mono p1.m⟩
+
+theorem d_use {ty : Nat} (hx : execStmt (f + 1) r c (.use ty) = .ok (r', c')) :
+    DPost id r r' ∧ EnvK r' c'.env := by
+  simp only [execStmt] at hx
+  split at hx
+  · cases hx
+  · simp only [Except.ok.injEq, Prod.mk.injEq] at hx
+    obtain ⟨rfl, rfl⟩ := hx
+    exact ⟨DPost.refl hK hD, hE⟩
+
+theorem d_runIn {h : Nat} {b : Body} (hx : execStmt (f + 1) r c (.runIn h b) = .ok (r', c')) :
+    DPost id r r' ∧ EnvK r' c'.env := by
+  simp only [execStmt] at hx
+  split at hx
+  · cases hx
+  · rename_i hd hl
+    split at hx
+    · cases hx
+    · rename_i r1 c1 h1
+      simp only [Except.ok.injEq, Prod.mk.injEq] at hx
+      obtain ⟨rfl, rfl⟩ := hx
+      have ia : RInvP P { r with current := some hd.id } :=
+        hI.congr rfl (by intro x hc; simp only [Option.some.injEq] at hc; subst hc; exact (hE hd (lookup_ok hl).2).1)
+      have pa : DPost id r { r with current := some hd.id } := DPost.same hK hD rfl rfl rfl
+      obtain ⟨o1, e1⟩ := ih.inner P _ c b r1 c1 ia pa.k pa.d (hE.mono pa.m) h1
+      have p2 : DPost id r1 { r1 with current := r.current } := DPost.same o1.k o1.d rfl rfl rfl
+      exact ⟨(pa.trans o1.toDPost).trans p2, e1.mono p2.m⟩
+
+end stmts
+
+theorem d_stmt {id : Id} {f : Nat} (ih : DAll id f) (P : Id → Prop) (r : Root) (c : Ctx) (s : Stmt)
+    (r' : Root) (c' : Ctx) (hI : RInvP P r) (hK : KInv r) (hD : Det r id) (hE : EnvK r c.env)
+    (hx : execStmt (f + 1) r c s = .ok (r', c')) : DPost id r r' ∧ EnvK r' c'.env := by
+  cases s with
+  | read h => exact d_read ih hI hK hD hE hx
+  | readU h => exact d_readU ih hI hK hD hE hx
+  | track h => exact d_track ih hI hK hD hE hx
+  | ifpos h t e => exact d_ifpos ih hI hK hD hE hx
+  | untrack b => exact d_untrack ih hI hK hD hE hx
+  | component b => exact d_component ih hI hK hD hE hx
+  | on deps b => exact d_on ih hI hK hD hE hx
+  | signal v => exact d_signal ih hI hK hD hE hx
+  | memo b => exact d_memo ih hI hK hD hE hx
+  | selector eq b => exact d_selectorStmt ih hI hK hD hE hx
+  | effect b => exact d_effect ih hI hK hD hE hx
+  | scope b => exact d_scope ih hI hK hD hE hx
+  | set h e => exact d_set ih hI hK hD hE hx
+  | setSilent h e => exact d_setSilentStmt ih hI hK hD hE hx
+  | cleanup b => exact d_cleanupStmt ih hI hK hD hE hx
+  | dispose h => exact d_dispose ih hI hK hD hE hx
+  | disposeCur => exact d_disposeCur ih hI hK hD hE hx
+  | batch b => exact d_batch ih hI hK hD hE hx
+  | provide ty e => exact d_provide ih hI hK hD hE hx
+  | use ty => exact d_use ih hI hK hD hE hx
+  | runIn h b => exact d_runIn ih hI hK hD hE hx
+
+/-! ### A.8 the induction -/
+
+theorem dAll (id : Id) : ∀ f, DAll id f
+  | 0 => dAll_zero id
+  | f + 1 =>
+    have ih := dAll id f
+    have pa := presAll (f + 1)
+    { body := fun P r c b r' c' hI hK hD hE hx =>
+        have h := d_body ih P r c b r' c' hI hK hD hE hx
+        have q := pa.body P r c b r' c' hI hE.envLt hx
+        ⟨Out.of ⟨q.1, q.2.1⟩ h.1, h.2⟩
+      inner := fun P r c b r' c' hI hK hD hE hx =>
+        have h := d_inner ih P r c b r' c' hI hK hD hE hx
+        have q := pa.inner P r c b r' c' hI hE.envLt hx
+        ⟨Out.of ⟨q.1, q.2.1⟩ h.1, h.2⟩
+      stmt := fun P r c s r' c' hI hK hD hE hx =>
+        have h := d_stmt ih P r c s r' c' hI hK hD hE hx
+        have q := pa.stmt P r c s r' c' hI hE.envLt hx
+        ⟨Out.of ⟨q.1, q.2.1⟩ h.1, h.2⟩
+      closure := fun P r cl r' v obs hI hK hD hE hx =>
+        Out.of (pa.closure P r cl r' v obs hI hE.envLt hx) (d_closure ih P r cl r' v obs hI hK hD hE hx)
+      selector := fun P r eq cl r' nid hI hK hD hE hx =>
+        Out.of (pa.selector P r eq cl r' nid hI hE.envLt hx).1 (d_selector ih P r eq cl r' nid hI hK hD hE hx)
+      update := fun P r cur r' hI hK hD hne hx =>
+        Out.of (pa.update P r cur r' hI hx) (d_update ih P r cur r' hI hK hD hne hx)
+      loop := fun P r l r' hI hK hD hl hx =>
+        Out.of (pa.loop P r l r' hI hx) (d_loop ih P r l r' hI hK hD hl hx)
+      nodeUpdates := fun P r l r' hI hK hD hl hx =>
+        Out.of (pa.nodeUpdates P r l r' hI hx) (d_nodeUpdates ih P r l r' hI hK hD hl hx)
+      updates := fun P r s r' hI hK hD hlt hs hx =>
+        Out.of (pa.updates P r s r' hI hx) (d_updates ih P r s r' hI hK hD hlt hs hx)
+      dnode := fun P r x r' hI hK hD hx =>
+        Out.of (pa.dnode P r x r' hI hx).1 (d_dnode ih P r x r' hI hK hD hx)
+      dchildren := fun P r x r' hI hK hD hx =>
+        Out.of (pa.dchildren P r x r' hI hx) (d_dchildren ih P r x r' hI hK hD hx)
+      cleanups := fun P r cls r' hI hK hD hE hx =>
+        Out.of (pa.cleanups P r cls r' hI (fun cl hc => (hE cl hc).envLt) hx)
+          (d_cleanups ih P r cls r' hI hK hD hE hx)
+      dlist := fun P r cs r' hI hK hD hx =>
+        Out.of (pa.dlist P r cs r' hI hx).1 (d_dlist ih P r cs r' hI hK hD hx) }
+
+/-! ### A.9 the initial state, top-level programs -/
+
+theorem kinv_init : KInv Root.init := by
+  refine ⟨?_, ?_⟩
+  · rintro cl ⟨i, n, hn, hc⟩
+    obtain ⟨_, rfl⟩ := init_get? hn
+    simp [freshNode] at hc
+  · intro q hq; simp [Root.init] at hq
+
+theorem det_init : Det Root.init 0 := by
+  refine ⟨by simp [Root.init], ?_⟩
+  intro j n hn
+  obtain ⟨_, rfl⟩ := init_get? hn
+  simp [freshNode]
+
+/-- a sequence of top-level operations keeps the kind discipline (and a detached slot detached: the
+functions of the mutual block are specified relative to some detached slot; in a state reachable from
+`Root.init` the root scope, slot `0`, is one) -/
+theorem runOps_kinv (id : Id) (fuel : Nat) : ∀ (ops : List Stmt) (r : Root) (env : List Handle) (r' : Root)
+    (env' : List Handle), RInv r → KInv r → Det r id → EnvK r env → runOps fuel ops r env = .ok (r', env') →
+    RInv r' ∧ KInv r' ∧ Det r' id ∧ EnvK r' env'
+  | [], r, env, r', env', hI, hK, hD, hE, hx => by
+    simp only [runOps, Except.ok.injEq, Prod.mk.injEq] at hx
+    obtain ⟨rfl, rfl⟩ := hx
+    exact ⟨hI, hK, hD, hE⟩
+  | s :: rest, r, env, r', env', hI, hK, hD, hE, hx => by
+    simp only [runOps] at hx
+    split at hx
+    · cases hx
+    · rename_i r1 c1 h1
+      obtain ⟨o1, e1⟩ := (dAll id fuel).stmt _ r ⟨env, 0, []⟩ s r1 c1 hI hK hD hE h1
+      exact runOps_kinv id fuel rest r1 c1.env r' env' o1.i o1.k o1.d e1 hx
+
+/-! ### A.10 the trace only grows (no hypothesis on the state), and `runCleanups` logs every cleanup -/
+
+/-- the trace of `r'` extends that of `r` -/
+def TExt (r r' : Root) : Prop := ∃ evs, r'.trace = r.trace ++ evs
+
+theorem TExt.refl (r : Root) : TExt r r := ⟨[], by simp⟩
+
+theorem TExt.of_eq {r r' : Root} (h : r'.trace = r.trace) : TExt r r' := ⟨[], by simp [h]⟩
+
+theorem TExt.trans {a b c : Root} (h1 : TExt a b) (h2 : TExt b c) : TExt a c := by
+  obtain ⟨e1, t1⟩ := h1
+  obtain ⟨e2, t2⟩ := h2
+  exact ⟨e1 ++ e2, by rw [t2, t1, List.append_assoc]⟩
+
+theorem track_trace (r : Root) (x : Id) : (track r x).trace = r.trace := by
+  unfold track; split <;> rfl
+
+theorem unlink_trace (cur : Id) : ∀ (l : List Id) (r r' : Root), unlink cur r l = .ok r' → r'.trace = r.trace
+  | [], r, r', h => by simp only [unlink, Except.ok.injEq] at h; subst h; rfl
+  | d :: ds, r, r', h => by
+    simp only [unlink] at h
+    split at h
+    · cases h
+    · rw [unlink_trace cur ds _ r' h]; exact (SameFrame.setNode ..).2.2.2.2.2.2.2
+
+theorem removeNode_trace (r : Root) (x : Id) : (removeNode r x).trace = r.trace := by
+  unfold removeNode
+  split
+  · rfl
+  · exact ((SameFrame.remove r x).trans ((SameFrame.foldl_modify ..).trans (SameFrame.foldl_modify ..))).2.2.2.2.2.2.2
+
+theorem visitStarts_trace (ss : List Id) {r r' : Root} {buf buf' : List Id}
+    (hx : visitStarts r buf ss = .ok (r', buf')) : r'.trace = r.trace :=
+  (EStep.visitStarts (id := 0) ss hx).trace
+
+theorem provideContext_trace {r r' : Root} {ty : Nat} {v : Int} (hx : provideContext r ty v = .ok r') :
+    r'.trace = r.trace := (EStep.provideContext (id := 0) hx).trace
+
+structure TAll (f : Nat) : Prop where
+  body : ∀ r c b r' c', execBody f r c b = .ok (r', c') → TExt r r'
+  inner : ∀ r c b r' c', execInner f r c b = .ok (r', c') → TExt r r'
+  stmt : ∀ r c s r' c', execStmt f r c s = .ok (r', c') → TExt r r'
+  closure : ∀ r cl r' v obs, runClosure f r cl = .ok (r', v, obs) → TExt r r'
+  selector : ∀ r eq cl r' nid, createSelector f r eq cl = .ok (r', nid) → TExt r r'
+  update : ∀ r cur r', runNodeUpdate f r cur = .ok r' → TExt r r'
+  loop : ∀ r l r', propagateLoop f r l = .ok r' → TExt r r'
+  nodeUpdates : ∀ r l r', propagateNodeUpdates f r l = .ok r' → TExt r r'
+  updates : ∀ r s r', propagateUpdates f r s = .ok r' → TExt r r'
+  dnode : ∀ r x r', disposeNode f r x = .ok r' → TExt r r'
+  dchildren : ∀ r x r', disposeChildren f r x = .ok r' → TExt r r'
+  cleanups : ∀ r cls r', runCleanups f r cls = .ok r' → ∃ evs, r'.trace = r.trace ++ evs ∧
+    (cls.map fun cl => some cl.tag).Sublist (evs.map Event.cleanupTag)
+  dlist : ∀ r cs r', disposeList f r cs = .ok r' → TExt r r'
+
+theorem tAll_zero : TAll 0 := by
+  constructor <;> intros <;> simp_all [execBody, execInner, execStmt, runClosure, createSelector,
+    runNodeUpdate, propagateLoop, propagateNodeUpdates, propagateUpdates, disposeNode, disposeChildren,
+    runCleanups, disposeList]
+
+theorem t_stmt {f : Nat} (ih : TAll f) (r : Root) (c : Ctx) (s : Stmt) (r' : Root) (c' : Ctx)
+    (hx : execStmt (f + 1) r c s = .ok (r', c')) : TExt r r' := by
+  have untracked : ∀ {r r' : Root} {c c' : Ctx} {b : Body} {prev : Option (List Id)},
+      (match execInner f { r with tracker := none } c b with
+        | .error e => .error e
+        | .ok (r, c) => .ok ({ r with tracker := prev }, c)) = (.ok (r', c') : Except Panic (Root × Ctx)) →
+      TExt r r' := by
+    intro r r' c c' b prev hx
+    split at hx
+    · cases hx
+    · rename_i r1 c1 h1
+      simp only [Except.ok.injEq, Prod.mk.injEq] at hx
+      obtain ⟨rfl, rfl⟩ := hx
+      have t := ih.inner _ c b r1 c1 h1
+      exact t
+  have created : ∀ {eq : EqKind} {b : Body} {kd : Kind},
+      (match createSelector f r eq ⟨b, c.env, 0⟩ with
+        | .error e => .error e
+        | .ok (r, id) => .ok (r, { c with env := c.env ++ [⟨id, kd⟩] })) = (.ok (r', c') : Except Panic (Root × Ctx)) →
+      TExt r r' := by
+    intro eq b kd hx
+    split at hx
+    · cases hx
+    · rename_i r1 nid h1
+      simp only [Except.ok.injEq, Prod.mk.injEq] at hx
+      obtain ⟨rfl, rfl⟩ := hx
+      exact ih.selector r eq _ r1 nid h1
+  cases s with
+  | read h =>
+    simp only [execStmt] at hx
+    split at hx
+    · cases hx
+    · split at hx
+      · cases hx
+      · split at hx
+        · cases hx
+        · simp only [Except.ok.injEq, Prod.mk.injEq] at hx
+          obtain ⟨rfl, rfl⟩ := hx
+          exact TExt.of_eq (track_trace ..)
+  | readU h =>
+    simp only [execStmt] at hx
+    split at hx
+    · cases hx
+    · split at hx
+      · cases hx
+      · split at hx
+        · cases hx
+        · simp only [Except.ok.injEq, Prod.mk.injEq] at hx
+          obtain ⟨rfl, rfl⟩ := hx
+          exact TExt.refl _
+  | track h =>
+    simp only [execStmt] at hx
+    split at hx
+    · cases hx
+    · split at hx
+      · cases hx
+      · simp only [Except.ok.injEq, Prod.mk.injEq] at hx
+        obtain ⟨rfl, rfl⟩ := hx
+        exact TExt.of_eq (track_trace ..)
+  | ifpos h t e =>
+    simp only [execStmt] at hx
+    split at hx
+    · cases hx
+    · rename_i hd _
+      split at hx
+      · cases hx
+      · split at hx
+        · cases hx
+        · split at hx
+          · exact (TExt.of_eq (track_trace r hd.id)).trans (ih.inner _ _ t r' c' hx)
+          · exact (TExt.of_eq (track_trace r hd.id)).trans (ih.inner _ _ e r' c' hx)
+  | untrack b => simp only [execStmt] at hx; exact untracked hx
+  | component b => simp only [execStmt] at hx; exact untracked hx
+  | on deps b =>
+    simp only [execStmt] at hx
+    split at hx
+    · cases hx
+    · rename_i r1 h1
+      exact (TExt.of_eq (trackAll_trace c deps h1)).trans (untracked hx)
+  | signal v =>
+    simp only [execStmt] at hx
+    split at hx
+    · cases hx
+    · rename_i r1 nid h1
+      simp only [Except.ok.injEq, Prod.mk.injEq] at hx
+      obtain ⟨rfl, rfl⟩ := hx
+      exact TExt.of_eq (createNode_get? h1).2.2.2.2.2.2.2.2.2
+  | memo b => simp only [execStmt] at hx; exact created hx
+  | selector eq b => simp only [execStmt] at hx; exact created hx
+  | effect b => simp only [execStmt] at hx; exact created hx
+  | scope b =>
+    simp only [execStmt] at hx
+    split at hx
+    · cases hx
+    · rename_i r1 nid h1
+      split at hx
+      · cases hx
+      · rename_i r2 c2 h2
+        simp only [Except.ok.injEq, Prod.mk.injEq] at hx
+        obtain ⟨rfl, rfl⟩ := hx
+        have t := ih.inner _ c b r2 c2 h2
+        exact (TExt.of_eq (createNode_get? h1).2.2.2.2.2.2.2.2.2).trans t
+  | set h e =>
+    simp only [execStmt] at hx
+    split at hx
+    · cases hx
+    · split at hx
+      · cases hx
+      · split at hx
+        · cases hx
+        · rename_i r1 h1
+          split at hx
+          · cases hx
+          · rename_i r2 h2
+            simp only [Except.ok.injEq, Prod.mk.injEq] at hx
+            obtain ⟨rfl, rfl⟩ := hx
+            exact (TExt.of_eq (EStep.setSilent (id := 0) h1).trace).trans (ih.updates r1 _ r2 h2)
+  | setSilent h e =>
+    simp only [execStmt] at hx
+    split at hx
+    · cases hx
+    · split at hx
+      · cases hx
+      · split at hx
+        · cases hx
+        · rename_i r1 h1
+          simp only [Except.ok.injEq, Prod.mk.injEq] at hx
+          obtain ⟨rfl, rfl⟩ := hx
+          exact TExt.of_eq (EStep.setSilent (id := 0) h1).trace
+  | cleanup b =>
+    simp only [execStmt] at hx
+    split at hx
+    · simp only [Except.ok.injEq, Prod.mk.injEq] at hx
+      obtain ⟨rfl, rfl⟩ := hx
+      exact TExt.refl _
+    · split at hx
+      · cases hx
+      · simp only [Except.ok.injEq, Prod.mk.injEq] at hx
+        obtain ⟨rfl, rfl⟩ := hx
+        exact TExt.of_eq (SameFrame.setNode ..).2.2.2.2.2.2.2
+  | dispose h =>
+    simp only [execStmt] at hx
+    split at hx
+    · cases hx
+    · split at hx
+      · cases hx
+      · rename_i r1 h1
+        simp only [Except.ok.injEq, Prod.mk.injEq] at hx
+        obtain ⟨rfl, rfl⟩ := hx
+        exact ih.dnode r _ r1 h1
+  | disposeCur =>
+    simp only [execStmt] at hx
+    split at hx
+    · simp only [Except.ok.injEq, Prod.mk.injEq] at hx
+      obtain ⟨rfl, rfl⟩ := hx
+      exact TExt.refl _
+    · split at hx
+      · cases hx
+      · rename_i r1 h1
+        simp only [Except.ok.injEq, Prod.mk.injEq] at hx
+        obtain ⟨rfl, rfl⟩ := hx
+        exact ih.dnode r _ r1 h1
+  | batch b =>
+    simp only [execStmt] at hx
+    split at hx
+    · cases hx
+    · rename_i r1 c1 h1
+      have t1' := ih.inner _ c b r1 c1 h1
+      have t1 : TExt r r1 := t1'
+      split at hx
+      · simp only [Except.ok.injEq, Prod.mk.injEq] at hx
+        obtain ⟨rfl, rfl⟩ := hx
+        exact t1
+      · split at hx
+        · cases hx
+        · rename_i r2 h2
+          simp only [Except.ok.injEq, Prod.mk.injEq] at hx
+          obtain ⟨rfl, rfl⟩ := hx
+          have t2 := ih.nodeUpdates _ r1.queue r2 h2
+          exact t1.trans t2
+  | provide ty e =>
+    simp only [execStmt] at hx
+    split at hx
+    · cases hx
+    · rename_i r1 h1
+      simp only [Except.ok.injEq, Prod.mk.injEq] at hx
+      obtain ⟨rfl, rfl⟩ := hx
+      exact TExt.of_eq (provideContext_trace h1)
+  | use ty =>
+    simp only [execStmt] at hx
+    split at hx
+    · cases hx
+    · simp only [Except.ok.injEq, Prod.mk.injEq] at hx
+      obtain ⟨rfl, rfl⟩ := hx
+      exact TExt.refl _
+  | runIn h b =>
+    simp only [execStmt] at hx
+    split at hx
+    · cases hx
+    · split at hx
+      · cases hx
+      · rename_i r1 c1 h1
+        simp only [Except.ok.injEq, Prod.mk.injEq] at hx
+        obtain ⟨rfl, rfl⟩ := hx
+        have t := ih.inner _ c b r1 c1 h1
+        exact t
+
+theorem t_cleanups {f : Nat} (ih : TAll f) (r : Root) (cls : List Closure) (r' : Root)
+    (hx : runCleanups (f + 1) r cls = .ok r') : ∃ evs, r'.trace = r.trace ++ evs ∧
+    (cls.map fun cl => some cl.tag).Sublist (evs.map Event.cleanupTag) := by
+  cases cls with
+  | nil =>
+    simp only [runCleanups, Except.ok.injEq] at hx
+    subst hx; exact ⟨[], by simp, by simp⟩
+  | cons cl cls =>
+    simp only [runCleanups] at hx
+    split at hx
+    · cases hx
+    · rename_i r1 v obs h1
+      obtain ⟨e1, t1⟩ := ih.closure r cl r1 v obs h1
+      obtain ⟨e2, t2, s2⟩ := ih.cleanups _ cls r' hx
+      refine ⟨e1 ++ [.cleanup cl.tag obs] ++ e2, by rw [t2]; simp [t1], ?_⟩
+      simp only [List.map_cons, List.map_append, Event.cleanupTag, List.append_assoc, List.cons_append,
+        List.nil_append]
+      exact List.Sublist.trans (List.Sublist.cons_cons _ s2) (List.sublist_append_right _ _)
+
+theorem t_update {f : Nat} (ih : TAll f) (r : Root) (cur : Id) (r' : Root)
+    (hx : runNodeUpdate (f + 1) r cur = .ok r') : TExt r r' := by
+  simp only [runNodeUpdate] at hx
+  split at hx
+  · cases hx
+  · rename_i n hn
+    split at hx
+    · cases hx
+    · rename_i r2 h2
+      have t2 : TExt r r2 := TExt.of_eq ((unlink_trace cur _ _ r2 h2).trans (SameFrame.setNode ..).2.2.2.2.2.2.2)
+      split at hx
+      · cases hx
+      · rename_i n2 hn2
+        split at hx
+        · cases hx
+        · cases hx
+        · rename_i eq cl old hcb hval
+          split at hx
+          · cases hx
+          · rename_i r4 h4
+            have t4 : TExt r2 r4 :=
+              (TExt.of_eq (SameFrame.setNode ..).2.2.2.2.2.2.2).trans (ih.dchildren _ cur r4 h4)
+            split at hx
+            · cases hx
+            · rename_i r5 new obs h5
+              have t5' := ih.closure _ cl r5 new obs h5
+              have t5 : TExt r4 r5 := t5'
+              generalize hr6 : ({ r5 with tracker := r4.tracker, current := r4.current, trace := r5.trace ++ [Event.run cur obs new] } : Root) = r6 at hx
+              have t6 : TExt r5 r6 := by subst hr6; exact ⟨[Event.run cur obs new], rfl⟩
+              have t06 : TExt r r6 := ((t2.trans t4).trans t5).trans t6
+              have t7 : TExt r6 (createDependencyLink r6 (r5.tracker.getD []) cur) :=
+                TExt.of_eq (createDependencyLink_sameFrame ..).2.2.2.2.2.2.2
+              split at hx
+              · simp only [Except.ok.injEq] at hx
+                subst hx; exact t06.trans t7
+              · simp only [Except.ok.injEq] at hx
+                split at hx
+                · subst hx
+                  exact (t06.trans t7).trans ((TExt.of_eq (SameFrame.setNode ..).2.2.2.2.2.2.2).trans
+                    (TExt.of_eq (markDependentsDirty_frame ..).2.2.2.2.2.2.2.2.2.2))
+                · subst hx
+                  exact (t06.trans t7).trans (TExt.of_eq (SameFrame.setNode ..).2.2.2.2.2.2.2)
+
+theorem t_selector {f : Nat} (ih : TAll f) (r : Root) (eq : EqKind) (cl : Closure) (r' : Root) (nid : Id)
+    (hx : createSelector (f + 1) r eq cl = .ok (r', nid)) : TExt r r' := by
+  simp only [createSelector] at hx
+  split at hx
+  · cases hx
+  · rename_i r1 id1 h1
+    have t1 : TExt r r1 := TExt.of_eq (createNode_get? h1).2.2.2.2.2.2.2.2.2
+    split at hx
+    · cases hx
+    · rename_i r2 v obs h2
+      have t2' := ih.closure _ cl r2 v obs h2
+      have t2 : TExt r1 r2 := t2'
+      generalize hr3 : ({ r2 with tracker := r1.tracker, current := r1.current, trace := r2.trace ++ [Event.run id1 obs v] } : Root) = r3 at hx
+      have t3 : TExt r2 r3 := by subst hr3; exact ⟨[Event.run id1 obs v], rfl⟩
+      have t4 : TExt r3 (createDependencyLink r3 (r2.tracker.getD []) id1) :=
+        TExt.of_eq (createDependencyLink_sameFrame ..).2.2.2.2.2.2.2
+      split at hx
+      · simp only [Except.ok.injEq, Prod.mk.injEq] at hx
+        obtain ⟨rfl, rfl⟩ := hx
+        exact ((t1.trans t2).trans t3).trans t4
+      · simp only [Except.ok.injEq, Prod.mk.injEq] at hx
+        obtain ⟨rfl, rfl⟩ := hx
+        exact (((t1.trans t2).trans t3).trans t4).trans (TExt.of_eq (SameFrame.setNode ..).2.2.2.2.2.2.2)
+
+theorem tAll : ∀ f, TAll f
+  | 0 => tAll_zero
+  | f + 1 => by
+    have ih := tAll f
+    refine ⟨?_, ?_, t_stmt ih, ?_, t_selector ih, t_update ih, ?_, ?_, ?_, ?_, ?_, t_cleanups ih, ?_⟩
+    · -- body
+      intro r c b r' c' hx
+      cases b with
+      | nil =>
+        simp only [execBody, Except.ok.injEq, Prod.mk.injEq] at hx
+        obtain ⟨rfl, rfl⟩ := hx; exact TExt.refl _
+      | cons s rest =>
+        simp only [execBody] at hx
+        split at hx
+        · cases hx
+        · rename_i r1 c1 h1
+          exact (ih.stmt r c s r1 c1 h1).trans (ih.body r1 c1 rest r' c' hx)
+    · -- inner
+      intro r c b r' c' hx
+      simp only [execInner] at hx
+      split at hx
+      · cases hx
+      · rename_i r1 c1 h1
+        simp only [Except.ok.injEq, Prod.mk.injEq] at hx
+        obtain ⟨rfl, rfl⟩ := hx
+        exact ih.body r c b r1 c1 h1
+    · -- closure
+      intro r cl r' v obs hx
+      simp only [runClosure] at hx
+      split at hx
+      · cases hx
+      · rename_i r1 c1 h1
+        simp only [Except.ok.injEq, Prod.mk.injEq] at hx
+        obtain ⟨rfl, _, _⟩ := hx
+        exact ih.body r _ cl.body r1 c1 h1
+    · -- loop
+      intro r l r' hx
+      cases l with
+      | nil =>
+        simp only [propagateLoop, Except.ok.injEq] at hx
+        subst hx; exact TExt.refl _
+      | cons node rest =>
+        simp only [propagateLoop] at hx
+        split at hx
+        · exact ih.loop r rest r' hx
+        · have t1 := TExt.of_eq (SameFrame.setNode r node { ‹Node› with mark := .none }).2.2.2.2.2.2.2
+          split at hx
+          · split at hx
+            · cases hx
+            · rename_i r2 h2
+              exact (t1.trans (ih.update _ node r2 h2)).trans (ih.loop r2 rest r' hx)
+          · exact t1.trans (ih.loop _ rest r' hx)
+    · -- nodeUpdates
+      intro r l r' hx
+      simp only [propagateNodeUpdates] at hx
+      split at hx
+      · cases hx
+      · rename_i r1 buf h1
+        exact ((TExt.of_eq (visitStarts_trace l h1)).trans
+          (TExt.of_eq (resetMarks_spec l r1).1.trace)).trans (ih.loop _ buf.reverse r' hx)
+    · -- updates
+      intro r s r' hx
+      simp only [propagateUpdates] at hx
+      split at hx
+      · simp only [Except.ok.injEq] at hx
+        subst hx; exact TExt.refl _
+      · exact ih.nodeUpdates r [s] r' hx
+    · -- dnode
+      intro r x r' hx
+      simp only [disposeNode] at hx
+      split at hx
+      · cases hx
+      · rename_i r1 h1
+        simp only [Except.ok.injEq] at hx
+        subst hx
+        exact ((TExt.of_eq (unsubscribe_sameFrame r x).2.2.2.2.2.2.2).trans (ih.dchildren _ x r1 h1)).trans
+          (TExt.of_eq (removeNode_trace r1 x))
+    · -- dchildren
+      intro r x r' hx
+      simp only [disposeChildren] at hx
+      split at hx
+      · simp only [Except.ok.injEq] at hx
+        subst hx; exact TExt.refl _
+      · rename_i n hn
+        split at hx
+        · cases hx
+        · rename_i r2 h2
+          split at hx
+          · cases hx
+          · rename_i r3 h3
+            simp only [Except.ok.injEq] at hx
+            subst hx
+            obtain ⟨e2, t2, _⟩ := ih.cleanups _ n.cleanups r2 h2
+            have t2' : TExt r r2 := (TExt.of_eq (SameFrame.setNode r x _).2.2.2.2.2.2.2).trans ⟨e2, t2⟩
+            have t3' := ih.dlist _ n.children r3 h3
+            have t3 : TExt r2 r3 := t3'
+            exact (t2'.trans t3).trans
+              (TExt.of_eq (SameFrame.modify ..).2.2.2.2.2.2.2)
+    · -- dlist
+      intro r cs r' hx
+      cases cs with
+      | nil =>
+        simp only [disposeList, Except.ok.injEq] at hx
+        subst hx; exact TExt.refl _
+      | cons c cs =>
+        simp only [disposeList] at hx
+        split at hx
+        · cases hx
+        · rename_i r1 h1
+          exact (ih.dnode r c r1 h1).trans (ih.dlist r1 cs r' hx)
+
+
+/-! ### A.11 `disposeNode` -/
+
+/-- **D19**: in a state that satisfies the bookkeeping invariant and the kind discipline, a successful
+`disposeNode … id` adds no run of `id` to the trace — whatever the cleanups do -/
+theorem dispose_noRunSince {P : Id → Prop} {fuel : Nat} {r r' : Root} {id : Id} (hI : RInvP P r)
+    (hK : KInv r) (hx : disposeNode fuel r id = .ok r') : NoRunSince id r r' := by
+  cases fuel with
+  | zero => simp [disposeNode] at hx
+  | succ f =>
+    simp only [disposeNode] at hx
+    split at hx
+    · cases hx
+    · rename_i r1 h1
+      simp only [Except.ok.injEq] at hx
+      subst hx
+      by_cases hlt : id < r.nodes.size
+      · obtain ⟨i0, _⟩ := hI.unsubscribe id
+        have e0 := EStep.unsubscribe (id := id) hI.nd hI.sym id
+        have hD0 : Det (unsubscribe r id) id :=
+          ⟨by rw [e0.size]; exact hlt, (unsubscribe_spec hI.nd hI.sym id).2.1⟩
+        have o1 := (dAll id f).dchildren P _ id r1 i0 (e0.kinv hK) hD0 h1
+        have p2 := (EStep.removeNode (id := id) o1.i.nd o1.i.sym id).dpost o1.k o1.d
+        exact ((NoRunSince.of_eq e0.trace).trans o1.t).trans p2.t
+      · have hdead : r.get? id = none := Root.get?_eq_none_of_size_le (Nat.le_of_not_gt hlt)
+        rw [unsubscribe_dead hdead] at h1
+        cases f with
+        | zero => simp [disposeChildren] at h1
+        | succ f =>
+          simp only [disposeChildren, hdead, Except.ok.injEq] at h1
+          subst h1
+          rw [removeNode_dead hdead]
+          exact NoRunSince.refl _ _
+
+/-- a successful `disposeNode … id` logs one cleanup event for every cleanup registered on `id`, in
+registration order (no hypothesis on the state or on the cleanups) -/
+theorem dispose_logs_cleanups {fuel : Nat} {r r' : Root} {id : Id} {n : Node} (hn : r.get? id = some n)
+    (hx : disposeNode fuel r id = .ok r') : ∃ evs, r'.trace = r.trace ++ evs ∧
+    (n.cleanups.map fun cl => some cl.tag).Sublist (evs.map Event.cleanupTag) := by
+  cases fuel with
+  | zero => simp [disposeNode] at hx
+  | succ f =>
+    simp only [disposeNode] at hx
+    split at hx
+    · cases hx
+    · rename_i r1 h1
+      simp only [Except.ok.injEq] at hx
+      subst hx
+      obtain ⟨g, hg, hfields⟩ := unsubscribe_get?_fields r id id
+      rw [hn] at hg
+      have hcl : (g n).cleanups = n.cleanups := (hfields n).2.2.2.2.1
+      have htr0 : (unsubscribe r id).trace = r.trace := (unsubscribe_sameFrame r id).2.2.2.2.2.2.2
+      cases f with
+      | zero => simp [disposeChildren] at h1
+      | succ f =>
+        simp only [disposeChildren, hg, Option.map_some] at h1
+        split at h1
+        · cases h1
+        · rename_i r2 h2
+          split at h1
+          · cases h1
+          · rename_i r3 h3
+            simp only [Except.ok.injEq] at h1
+            subst h1
+            obtain ⟨e2, t2, s2⟩ := (tAll f).cleanups _ (g n).cleanups r2 h2
+            have t3' := (tAll f).dlist _ (g n).children r3 h3
+            obtain ⟨e3, t3⟩ : TExt r2 r3 := t3'
+            refine ⟨e2 ++ e3, ?_, ?_⟩
+            · rw [removeNode_trace, (SameFrame.modify ..).2.2.2.2.2.2.2, t3, t2]
+              have : (Root.setNode (unsubscribe r id) id { g n with cleanups := [], children := [] }).trace
+                  = r.trace := (SameFrame.setNode ..).2.2.2.2.2.2.2.trans htr0
+              simp only [List.append_assoc]
+              rw [← this]
+            · rw [← hcl, List.map_append]
+              exact s2.trans (List.sublist_append_left _ _)
+
+/-! ### A.12 cleanup tags: every registered cleanup runs EXACTLY once
+
+Closures are identified in the trace by their tag (`nextTag` at registration).  `TagInv`: the tags of
+the stored cleanups are pairwise distinct and `< nextTag`.  `Gone t r`: no stored cleanup has tag `t`,
+and `t` will not be handed out again.  Every function of the mutual block keeps `TagInv`, keeps
+`Gone t`, and — while `Gone t` holds — logs no cleanup event with tag `t` (`runCleanups cls` logs as
+many as there are closures with tag `t` in `cls`).  No hypothesis on the state is needed. -/
+
+def CleanupAt (r : Root) (i : Id) (cl : Closure) : Prop := ∃ n, r.get? i = some n ∧ cl ∈ n.cleanups
+
+structure TagInv (r : Root) : Prop where
+  lt : ∀ i cl, CleanupAt r i cl → cl.tag < r.nextTag
+  nodup : ∀ i n, r.get? i = some n → (n.cleanups.map (·.tag)).Nodup
+  disj : ∀ i j a b, i ≠ j → CleanupAt r i a → CleanupAt r j b → a.tag ≠ b.tag
+
+def Gone (t : Nat) (r : Root) : Prop := t < r.nextTag ∧ ∀ i cl, CleanupAt r i cl → cl.tag ≠ t
+
+/-- number of cleanup events with tag `t` -/
+def tagCount (t : Nat) (evs : List Event) : Nat := (evs.map Event.cleanupTag).count (some t)
+
+/-- number of closures with tag `t` -/
+def clCount (t : Nat) (cls : List Closure) : Nat := (cls.map (·.tag)).count t
+
+structure GPostK (t k : Nat) (r r' : Root) : Prop where
+  inv : TagInv r → TagInv r'
+  tag : r.nextTag ≤ r'.nextTag
+  gone : Gone t r → Gone t r' ∧ ∃ evs, r'.trace = r.trace ++ evs ∧ tagCount t evs = k
+
+abbrev GPost (t : Nat) (r r' : Root) : Prop := GPostK t 0 r r'
+
+theorem GPostK.trans {t a b : Nat} {x y z : Root} (h1 : GPostK t a x y) (h2 : GPostK t b y z) :
+    GPostK t (a + b) x z := by
+  refine ⟨fun h => h2.inv (h1.inv h), Nat.le_trans h1.tag h2.tag, fun hg => ?_⟩
+  obtain ⟨g1, e1, t1, c1⟩ := h1.gone hg
+  obtain ⟨g2, e2, t2, c2⟩ := h2.gone g1
+  refine ⟨g2, e1 ++ e2, by rw [t2, t1, List.append_assoc], ?_⟩
+  simp only [tagCount, List.map_append, List.count_append] at *
+  rw [c1, c2]
+
+theorem GPost.trans {t : Nat} {x y z : Root} (h1 : GPost t x y) (h2 : GPost t y z) : GPost t x z :=
+  GPostK.trans h1 h2
+
+theorem GPostK.cast {t k : Nat} {r r' : Root} (h : GPostK t k r r') (hk : Gone t r → k = 0) : GPost t r r' := by
+  refine ⟨h.inv, h.tag, fun hg => ?_⟩
+  have := h.gone hg
+  rw [hk hg] at this
+  exact this
+
+/-- the arena is untouched; the tag counter does not decrease; the trace grows by `evs` -/
+theorem GPostK.of_nodes_eq {t k : Nat} {r r' : Root} {evs : List Event} (hn : r'.nodes = r.nodes)
+    (hle : r.nextTag ≤ r'.nextTag) (ht : r'.trace = r.trace ++ evs) (hk : tagCount t evs = k) :
+    GPostK t k r r' := by
+  have hg := Root.get?_congr_nodes hn
+  have back : ∀ i cl, CleanupAt r' i cl → CleanupAt r i cl := by
+    rintro i cl ⟨n, hi, hc⟩; exact ⟨n, by rw [← hg]; exact hi, hc⟩
+  refine ⟨fun h => ⟨fun i cl hc => Nat.lt_of_lt_of_le (h.lt i cl (back i cl hc)) hle,
+    fun i n hi => h.nodup i n (by rw [← hg]; exact hi),
+    fun i j a b hij ha hb => h.disj i j a b hij (back i a ha) (back j b hb)⟩, hle, fun hgone => ?_⟩
+  exact ⟨⟨Nat.lt_of_lt_of_le hgone.1 hle, fun i cl hc => hgone.2 i cl (back i cl hc)⟩, evs, ht, hk⟩
+
+theorem GPost.same {t : Nat} {r r' : Root} (hn : r'.nodes = r.nodes) (h1 : r'.nextTag = r.nextTag)
+    (h2 : r'.trace = r.trace) : GPost t r r' :=
+  GPostK.of_nodes_eq (evs := []) hn (Nat.le_of_eq h1.symm) (by simp [h2]) rfl
+
+theorem GPost.refl (t : Nat) (r : Root) : GPost t r r := GPost.same rfl rfl rfl
+
+/-- an arena transformation that registers nothing: every node afterwards has no cleanups or the
+cleanups of the same node before -/
+structure CStep (r r' : Root) : Prop where
+  nextTag : r'.nextTag = r.nextTag
+  trace : r'.trace = r.trace
+  back : ∀ j n', r'.get? j = some n' → n'.cleanups = [] ∨ ∃ n, r.get? j = some n ∧ n'.cleanups = n.cleanups
+
+theorem CStep.refl (r : Root) : CStep r r := ⟨rfl, rfl, fun _ n' h => .inr ⟨n', h, rfl⟩⟩
+
+theorem CStep.trans {a b c : Root} (h1 : CStep a b) (h2 : CStep b c) : CStep a c := by
+  refine ⟨h2.nextTag.trans h1.nextTag, h2.trace.trans h1.trace, fun j n'' hj => ?_⟩
+  rcases h2.back j n'' hj with h | ⟨n', hn', e⟩
+  · exact .inl h
+  · rcases h1.back j n' hn' with h | ⟨n, hn, e'⟩
+    · exact .inl (e.trans h)
+    · exact .inr ⟨n, hn, e.trans e'⟩
+
+theorem CStep.gpost {t : Nat} {r r' : Root} (h : CStep r r') : GPost t r r' := by
+  have back : ∀ i cl, CleanupAt r' i cl → CleanupAt r i cl := by
+    rintro i cl ⟨n', hi, hc⟩
+    rcases h.back i n' hi with e | ⟨n, hn, e⟩
+    · rw [e] at hc; cases hc
+    · exact ⟨n, hn, e ▸ hc⟩
+  refine ⟨fun hT => ⟨fun i cl hc => by rw [h.nextTag]; exact hT.lt i cl (back i cl hc), ?_,
+    fun i j a b hij ha hb => hT.disj i j a b hij (back i a ha) (back j b hb)⟩,
+    Nat.le_of_eq h.nextTag.symm, fun hg => ⟨⟨by rw [h.nextTag]; exact hg.1,
+      fun i cl hc => hg.2 i cl (back i cl hc)⟩, [], by simp [h.trace], rfl⟩⟩
+  intro i n' hi
+  rcases h.back i n' hi with e | ⟨n, hn, e⟩
+  · rw [e]; exact List.nodup_nil
+  · rw [e]; exact hT.nodup i n hn
+
+theorem CStep.of_sameFrame {r r' : Root} (hf : SameFrame r r')
+    (back : ∀ j n', r'.get? j = some n' → n'.cleanups = [] ∨ ∃ n, r.get? j = some n ∧ n'.cleanups = n.cleanups) :
+    CStep r r' := ⟨hf.2.2.2.2.2.2.1, hf.2.2.2.2.2.2.2, back⟩
+
+theorem CStep.setNode {r : Root} {x : Id} {n : Node} (n' : Node) (hn : r.get? x = some n)
+    (h : n'.cleanups = n.cleanups ∨ n'.cleanups = []) : CStep r (r.setNode x n') := by
+  refine CStep.of_sameFrame (SameFrame.setNode r x n') fun j m' hj => ?_
+  rw [Root.get?_setNode] at hj
+  split at hj
+  · rename_i hc
+    cases hj
+    rcases h with h | h
+    · exact .inr ⟨n, by rw [hc.1]; exact hn, h⟩
+    · exact .inl h
+  · exact .inr ⟨m', hj, rfl⟩
+
+theorem CStep.of_map {r r' : Root} (hf : SameFrame r r') (g : Id → Node → Node)
+    (hget : ∀ j, r'.get? j = (r.get? j).map (g j)) (hg : ∀ j m, (g j m).cleanups = m.cleanups) :
+    CStep r r' := by
+  refine CStep.of_sameFrame hf fun j n' hj => ?_
+  rw [hget, Option.map_eq_some_iff] at hj
+  obtain ⟨n, hn, rfl⟩ := hj
+  exact .inr ⟨n, hn, hg j n⟩
+
+theorem CStep.of_frame {r r' : Root} (h : Frame r r') : CStep r r' := by
+  refine ⟨h.nextTag, h.trace, fun j n' hj => ?_⟩
+  obtain ⟨n, hn, e⟩ := h.get?_bwd hj
+  obtain ⟨_, _, _, _, _, _, a7, _⟩ :=
+    sameButMark_some_iff.1 (show SameButMark (some n') (some n) from congrArg some e)
+  exact .inr ⟨n, hn, a7⟩
+
+theorem CStep.modify (r : Root) (x : Id) (f : Node → Node) (hf : ∀ m, (f m).cleanups = m.cleanups) :
+    CStep r (r.modify x f) := by
+  cases hx : r.get? x with
+  | none =>
+    have : r.modify x f = r := by simp [Root.modify, hx]
+    rw [this]; exact CStep.refl _
+  | some n =>
+    have : r.modify x f = r.setNode x (f n) := by simp [Root.modify, hx]
+    rw [this]; exact CStep.setNode _ hx (.inl (hf n))
+
+theorem CStep.unsubscribe (r : Root) (x : Id) : CStep r (unsubscribe r x) := by
+  refine CStep.of_sameFrame (unsubscribe_sameFrame r x) fun j n' hj => ?_
+  obtain ⟨g, hg, hfields⟩ := unsubscribe_get?_fields r x j
+  rw [hg, Option.map_eq_some_iff] at hj
+  obtain ⟨n, hn, rfl⟩ := hj
+  exact .inr ⟨n, hn, (hfields n).2.2.2.2.1⟩
+
+theorem removeNode_sameFrame (r : Root) (x : Id) : SameFrame r (removeNode r x) := by
+  unfold removeNode
+  split
+  · exact SameFrame.refl r
+  · exact (SameFrame.remove r x).trans ((SameFrame.foldl_modify ..).trans (SameFrame.foldl_modify ..))
+
+theorem CStep.removeNode (r : Root) (x : Id) : CStep r (removeNode r x) := by
+  refine CStep.of_sameFrame (removeNode_sameFrame r x) fun j n' hj => ?_
+  cases hx : r.get? x with
+  | none => rw [removeNode_dead hx] at hj; exact .inr ⟨n', hj, rfl⟩
+  | some this =>
+    rw [removeNode_get?_raw hx] at hj
+    split at hj
+    · cases hj
+    · rw [Option.map_eq_some_iff] at hj
+      obtain ⟨n, hn, rfl⟩ := hj
+      exact .inr ⟨n, hn, rfl⟩
+
+theorem CStep.unlink (cur : Id) : ∀ (l : List Id) (r r' : Root), unlink cur r l = .ok r' → CStep r r'
+  | [], r, r', h => by simp only [Reactive.unlink, Except.ok.injEq] at h; subst h; exact CStep.refl _
+  | d :: ds, r, r', h => by
+    simp only [Reactive.unlink] at h
+    split at h
+    · cases h
+    · rename_i dn hdn
+      exact (CStep.setNode { dn with dependents := dn.dependents.filter (· != cur) } hdn (.inl rfl)).trans
+        (CStep.unlink cur ds _ r' h)
+
+theorem CStep.link (r : Root) (deps : List Id) (d : Id) : CStep r (createDependencyLink r deps d) := by
+  cases hd : r.get? d with
+  | none => rw [createDependencyLink_dead deps hd]; exact CStep.refl _
+  | some nd =>
+    exact CStep.of_map (createDependencyLink_sameFrame r deps d) (linked (deps.filter r.alive) d)
+      (createDependencyLink_get? deps (Root.alive_iff.2 ⟨nd, hd⟩)) (fun _ _ => rfl)
+
+theorem CStep.markDirty (r : Root) (cur : Id) : CStep r (markDependentsDirty r cur) :=
+  CStep.of_map (markDependentsDirty_frame r cur).2.2.2
+    (fun j m => { m with dirty := m.dirty || isDependentOf r cur j }) (markDependentsDirty_get? r cur)
+    (fun _ _ => rfl)
+
+theorem CStep.visitStarts (ss : List Id) {r r' : Root} {buf buf' : List Id}
+    (hx : visitStarts r buf ss = .ok (r', buf')) : CStep r r' := by
+  induction ss generalizing r buf with
+  | nil =>
+    simp only [Reactive.visitStarts, Except.ok.injEq, Prod.mk.injEq] at hx
+    obtain ⟨rfl, _⟩ := hx
+    exact CStep.refl _
+  | cons s ss ih =>
+    simp only [Reactive.visitStarts] at hx
+    split at hx
+    · cases hx
+    · rename_i r1 buf1 h1
+      exact ((CStep.of_frame (dfs_post h1).1.frame).trans (CStep.markDirty r1 s)).trans (ih hx)
+
+theorem CStep.createNode {r r' : Root} {v : Option Int} {nid : Id} (hc : createNode r v = .ok (r', nid)) :
+    CStep r r' := by
+  obtain ⟨_, hget, _, _, _, _, _, _, hnt, htr⟩ := createNode_get? hc
+  refine ⟨hnt, htr, fun j n' hj => ?_⟩
+  rw [hget] at hj
+  by_cases hjs : j = r.nodes.size
+  · rw [if_pos hjs] at hj
+    simp only [Option.map_some, Option.some.injEq] at hj
+    subst hj
+    exact .inl rfl
+  · rw [if_neg hjs, Option.map_eq_some_iff] at hj
+    obtain ⟨n, hn, rfl⟩ := hj
+    exact .inr ⟨n, hn, rfl⟩
+
+theorem CStep.setSilent {r r' : Root} {x : Id} {v : Int} (hx : setSilent r x v = .ok r') : CStep r r' := by
+  obtain ⟨n, hn, _, rfl⟩ := setSilent_ok hx
+  exact CStep.setNode _ hn (.inl rfl)
+
+theorem CStep.provideContext {r r' : Root} {ty : Nat} {v : Int} (hx : provideContext r ty v = .ok r') :
+    CStep r r' := by
+  unfold Reactive.provideContext at hx
+  split at hx
+  · cases hx
+  · split at hx
+    · cases hx
+    · rename_i cur _ _ n hn
+      split at hx
+      · cases hx
+      · cases hx
+        exact CStep.setNode _ hn (.inl rfl)
+
+theorem track_nextTag (r : Root) (x : Id) : (track r x).nextTag = r.nextTag := by
+  unfold track; split <;> rfl
+
+theorem trackAll_nextTag (c : Ctx) (l : List Nat) {r r' : Root} (hx : trackAll c r l = .ok r') :
+    r'.nextTag = r.nextTag := by
+  induction l generalizing r with
+  | nil => simp only [trackAll, Except.ok.injEq] at hx; subst hx; rfl
+  | cons x l ih =>
+    simp only [trackAll] at hx
+    split at hx
+    · cases hx
+    · split at hx
+      · cases hx
+      · rw [ih hx]; exact track_nextTag ..
+
+structure GAll (t : Nat) (f : Nat) : Prop where
+  body : ∀ r c b r' c', execBody f r c b = .ok (r', c') → GPost t r r'
+  inner : ∀ r c b r' c', execInner f r c b = .ok (r', c') → GPost t r r'
+  stmt : ∀ r c s r' c', execStmt f r c s = .ok (r', c') → GPost t r r'
+  closure : ∀ r cl r' v obs, runClosure f r cl = .ok (r', v, obs) → GPost t r r'
+  selector : ∀ r eq cl r' nid, createSelector f r eq cl = .ok (r', nid) → GPost t r r'
+  update : ∀ r cur r', runNodeUpdate f r cur = .ok r' → GPost t r r'
+  loop : ∀ r l r', propagateLoop f r l = .ok r' → GPost t r r'
+  nodeUpdates : ∀ r l r', propagateNodeUpdates f r l = .ok r' → GPost t r r'
+  updates : ∀ r s r', propagateUpdates f r s = .ok r' → GPost t r r'
+  dnode : ∀ r x r', disposeNode f r x = .ok r' → GPost t r r'
+  dchildren : ∀ r x r', disposeChildren f r x = .ok r' → GPost t r r'
+  cleanups : ∀ r cls r', runCleanups f r cls = .ok r' → GPostK t (clCount t cls) r r'
+  dlist : ∀ r cs r', disposeList f r cs = .ok r' → GPost t r r'
+
+theorem gAll_zero (t : Nat) : GAll t 0 := by
+  constructor <;> intros <;> simp_all [execBody, execInner, execStmt, runClosure, createSelector,
+    runNodeUpdate, propagateLoop, propagateNodeUpdates, propagateUpdates, disposeNode, disposeChildren,
+    runCleanups, disposeList]
+
+theorem g_stmt {t f : Nat} (ih : GAll t f) (r : Root) (c : Ctx) (s : Stmt) (r' : Root) (c' : Ctx)
+    (hx : execStmt (f + 1) r c s = .ok (r', c')) : GPost t r r' := by
+  have untracked : ∀ {r r' : Root} {c c' : Ctx} {b : Body} {prev : Option (List Id)},
+      (match execInner f { r with tracker := none } c b with
+        | .error e => .error e
+        | .ok (r, c) => .ok ({ r with tracker := prev }, c)) = (.ok (r', c') : Except Panic (Root × Ctx)) →
+      GPost t r r' := by
+    intro r r' c c' b prev hx
+    split at hx
+    · cases hx
+    · rename_i r1 c1 h1
+      simp only [Except.ok.injEq, Prod.mk.injEq] at hx
+      obtain ⟨rfl, rfl⟩ := hx
+      have p0 : GPost t r { r with tracker := none } := GPost.same rfl rfl rfl
+      have p1 := ih.inner _ c b r1 c1 h1
+      have p2 : GPost t r1 { r1 with tracker := prev } := GPost.same rfl rfl rfl
+      exact (p0.trans p1).trans p2
+  have created : ∀ {eq : EqKind} {b : Body} {kd : Kind},
+      (match createSelector f r eq ⟨b, c.env, 0⟩ with
+        | .error e => .error e
+        | .ok (r, id) => .ok (r, { c with env := c.env ++ [⟨id, kd⟩] })) = (.ok (r', c') : Except Panic (Root × Ctx)) →
+      GPost t r r' := by
+    intro eq b kd hx
+    split at hx
+    · cases hx
+    · rename_i r1 nid h1
+      simp only [Except.ok.injEq, Prod.mk.injEq] at hx
+      obtain ⟨rfl, rfl⟩ := hx
+      exact ih.selector r eq _ r1 nid h1
+  have tracked : ∀ x : Id, GPost t r (track r x) := fun x =>
+    GPost.same (track_nodes r x).1 (track_nextTag r x) (track_trace r x)
+  cases s with
+  | read h =>
+    simp only [execStmt] at hx
+    split at hx
+    · cases hx
+    · split at hx
+      · cases hx
+      · split at hx
+        · cases hx
+        · simp only [Except.ok.injEq, Prod.mk.injEq] at hx
+          obtain ⟨rfl, rfl⟩ := hx
+          exact tracked _
+  | readU h =>
+    simp only [execStmt] at hx
+    split at hx
+    · cases hx
+    · split at hx
+      · cases hx
+      · split at hx
+        · cases hx
+        · simp only [Except.ok.injEq, Prod.mk.injEq] at hx
+          obtain ⟨rfl, rfl⟩ := hx
+          exact GPost.refl _ _
+  | track h =>
+    simp only [execStmt] at hx
+    split at hx
+    · cases hx
+    · split at hx
+      · cases hx
+      · simp only [Except.ok.injEq, Prod.mk.injEq] at hx
+        obtain ⟨rfl, rfl⟩ := hx
+        exact tracked _
+  | ifpos h th el =>
+    simp only [execStmt] at hx
+    split at hx
+    · cases hx
+    · rename_i hd _
+      split at hx
+      · cases hx
+      · split at hx
+        · cases hx
+        · split at hx
+          · exact (tracked hd.id).trans (ih.inner _ _ th r' c' hx)
+          · exact (tracked hd.id).trans (ih.inner _ _ el r' c' hx)
+  | untrack b => simp only [execStmt] at hx; exact untracked hx
+  | component b => simp only [execStmt] at hx; exact untracked hx
+  | on deps b =>
+    simp only [execStmt] at hx
+    split at hx
+    · cases hx
+    · rename_i r1 h1
+      have p1 : GPost t r r1 :=
+        GPost.same (trackAll_nodes c deps h1).1 (trackAll_nextTag c deps h1) (trackAll_trace c deps h1)
+      exact p1.trans (untracked hx)
+  | signal v =>
+    simp only [execStmt] at hx
+    split at hx
+    · cases hx
+    · rename_i r1 nid h1
+      simp only [Except.ok.injEq, Prod.mk.injEq] at hx
+      obtain ⟨rfl, rfl⟩ := hx
+      exact (CStep.createNode h1).gpost
+  | memo b => simp only [execStmt] at hx; exact created hx
+  | selector eq b => simp only [execStmt] at hx; exact created hx
+  | effect b => simp only [execStmt] at hx; exact created hx
+  | scope b =>
+    simp only [execStmt] at hx
+    split at hx
+    · cases hx
+    · rename_i r1 nid h1
+      split at hx
+      · cases hx
+      · rename_i r2 c2 h2
+        simp only [Except.ok.injEq, Prod.mk.injEq] at hx
+        obtain ⟨rfl, rfl⟩ := hx
+        have p1 : GPost t r r1 := (CStep.createNode h1).gpost
+        have pa : GPost t r1 { r1 with current := some nid } := GPost.same rfl rfl rfl
+        have p2 := ih.inner _ c b r2 c2 h2
+        have p3 : GPost t r2 { r2 with current := r1.current } := GPost.same rfl rfl rfl
+        exact ((p1.trans pa).trans p2).trans p3
+  | set h e =>
+    simp only [execStmt] at hx
+    split at hx
+    · cases hx
+    · split at hx
+      · cases hx
+      · split at hx
+        · cases hx
+        · rename_i r1 h1
+          split at hx
+          · cases hx
+          · rename_i r2 h2
+            simp only [Except.ok.injEq, Prod.mk.injEq] at hx
+            obtain ⟨rfl, rfl⟩ := hx
+            exact (CStep.setSilent h1).gpost.trans (ih.updates r1 _ r2 h2)
+  | setSilent h e =>
+    simp only [execStmt] at hx
+    split at hx
+    · cases hx
+    · split at hx
+      · cases hx
+      · split at hx
+        · cases hx
+        · rename_i r1 h1
+          simp only [Except.ok.injEq, Prod.mk.injEq] at hx
+          obtain ⟨rfl, rfl⟩ := hx
+          exact (CStep.setSilent h1).gpost
+  | cleanup b =>
+    simp only [execStmt] at hx
+    split at hx
+    · simp only [Except.ok.injEq, Prod.mk.injEq] at hx
+      obtain ⟨rfl, rfl⟩ := hx
+      exact GPost.refl _ _
+    · rename_i cur _
+      split at hx
+      · cases hx
+      · rename_i n hn
+        simp only [Except.ok.injEq, Prod.mk.injEq] at hx
+        obtain ⟨rfl, rfl⟩ := hx
+        generalize hn' : ({ n with cleanups := n.cleanups ++ [⟨b, c.env, r.nextTag⟩] } : Node) = n'
+        have hget : ∀ j, (r.setNode cur n').get? j = if j = cur then some n' else r.get? j := by
+          intro j
+          rw [Root.get?_setNode]
+          by_cases hj : j = cur <;> simp [hj, Root.lt_size_of_get? hn]
+        obtain ⟨_, _, _, _, _, _, s7, s8⟩ := SameFrame.setNode r cur n'
+        -- a cleanup stored afterwards was stored before, or is the new one
+        have back : ∀ i cl, CleanupAt { (r.setNode cur n') with nextTag := r.nextTag + 1 } i cl →
+            CleanupAt r i cl ∨ (i = cur ∧ cl.tag = r.nextTag) := by
+          rintro i cl ⟨m, hi, hc⟩
+          have hi' : (r.setNode cur n').get? i = some m := hi
+          rw [hget] at hi'
+          split at hi'
+          · rename_i hic; subst hic; cases hi'; subst hn'
+            simp only [List.mem_append, List.mem_singleton] at hc
+            rcases hc with hc | rfl
+            · exact .inl ⟨n, hn, hc⟩
+            · exact .inr ⟨rfl, rfl⟩
+          · exact .inl ⟨m, hi', hc⟩
+        refine ⟨fun hT => ⟨?_, ?_, ?_⟩, Nat.le_succ _, fun hg => ⟨⟨Nat.lt_succ_of_lt hg.1, ?_⟩, [], ?_, rfl⟩⟩
+        · intro i cl hc
+          rcases back i cl hc with h | ⟨_, h⟩
+          · exact Nat.lt_succ_of_lt (hT.lt i cl h)
+          · show cl.tag < r.nextTag + 1
+            rw [h]; exact Nat.lt_succ_self _
+        · intro i m hi
+          have hi' : (r.setNode cur n').get? i = some m := hi
+          rw [hget] at hi'
+          split at hi'
+          · rename_i hic; subst hic; cases hi'; subst hn'
+            simp only [List.map_append, List.map_cons, List.map_nil]
+            refine List.nodup_append.2 ⟨hT.nodup i n hn, by simp, ?_⟩
+            intro a ha b hb
+            simp only [List.mem_singleton] at hb
+            subst hb
+            obtain ⟨cl, hcl, rfl⟩ := List.mem_map.1 ha
+            exact Nat.ne_of_lt (hT.lt i cl ⟨n, hn, hcl⟩)
+          · exact hT.nodup i m hi'
+        · intro i j a b' hij ha hb
+          rcases back i a ha with h1 | ⟨h1, h1'⟩ <;> rcases back j b' hb with h2 | ⟨h2, h2'⟩
+          · exact hT.disj i j a b' hij h1 h2
+          · rw [h2']; exact Nat.ne_of_lt (hT.lt i a h1)
+          · rw [h1']; exact Nat.ne_of_gt (hT.lt j b' h2)
+          · exact absurd (h1.trans h2.symm) hij
+        · intro i cl hc
+          rcases back i cl hc with h | ⟨_, h⟩
+          · exact hg.2 i cl h
+          · rw [h]; exact Nat.ne_of_gt hg.1
+        · simp only [List.append_nil]; exact s8
+  | dispose h =>
+    simp only [execStmt] at hx
+    split at hx
+    · cases hx
+    · split at hx
+      · cases hx
+      · rename_i r1 h1
+        simp only [Except.ok.injEq, Prod.mk.injEq] at hx
+        obtain ⟨rfl, rfl⟩ := hx
+        exact ih.dnode r _ r1 h1
+  | disposeCur =>
+    simp only [execStmt] at hx
+    split at hx
+    · simp only [Except.ok.injEq, Prod.mk.injEq] at hx
+      obtain ⟨rfl, rfl⟩ := hx
+      exact GPost.refl _ _
+    · split at hx
+      · cases hx
+      · rename_i r1 h1
+        simp only [Except.ok.injEq, Prod.mk.injEq] at hx
+        obtain ⟨rfl, rfl⟩ := hx
+        exact ih.dnode r _ r1 h1
+  | batch b =>
+    simp only [execStmt] at hx
+    split at hx
+    · cases hx
+    · rename_i r1 c1 h1
+      have p0 : GPost t r { r with batching := true } := GPost.same rfl rfl rfl
+      have p1 := ih.inner _ c b r1 c1 h1
+      split at hx
+      · simp only [Except.ok.injEq, Prod.mk.injEq] at hx
+        obtain ⟨rfl, rfl⟩ := hx
+        exact p0.trans p1
+      · split at hx
+        · cases hx
+        · rename_i r2 h2
+          simp only [Except.ok.injEq, Prod.mk.injEq] at hx
+          obtain ⟨rfl, rfl⟩ := hx
+          have p1' : GPost t r1 { r1 with batching := false, queue := [] } := GPost.same rfl rfl rfl
+          have p2 := ih.nodeUpdates _ r1.queue r2 h2
+          exact ((p0.trans p1).trans p1').trans p2
+  | provide ty e =>
+    simp only [execStmt] at hx
+    split at hx
+    · cases hx
+    · rename_i r1 h1
+      simp only [Except.ok.injEq, Prod.mk.injEq] at hx
+      obtain ⟨rfl, rfl⟩ := hx
+      exact (CStep.provideContext h1).gpost
+  | use ty =>
+    simp only [execStmt] at hx
+    split at hx
+    · cases hx
+    · simp only [Except.ok.injEq, Prod.mk.injEq] at hx
+      obtain ⟨rfl, rfl⟩ := hx
+      exact GPost.refl _ _
+  | runIn h b =>
+    simp only [execStmt] at hx
+    split at hx
+    · cases hx
+    · rename_i hd _
+      split at hx
+      · cases hx
+      · rename_i r1 c1 h1
+        simp only [Except.ok.injEq, Prod.mk.injEq] at hx
+        obtain ⟨rfl, rfl⟩ := hx
+        have pa : GPost t r { r with current := some hd.id } := GPost.same rfl rfl rfl
+        have p1 := ih.inner _ c b r1 c1 h1
+        have p2 : GPost t r1 { r1 with current := r.current } := GPost.same rfl rfl rfl
+        exact (pa.trans p1).trans p2
+
+theorem g_cleanups {t f : Nat} (ih : GAll t f) (r : Root) (cls : List Closure) (r' : Root)
+    (hx : runCleanups (f + 1) r cls = .ok r') : GPostK t (clCount t cls) r r' := by
+  cases cls with
+  | nil =>
+    simp only [runCleanups, Except.ok.injEq] at hx
+    subst hx; exact GPost.refl _ _
+  | cons cl cls =>
+    simp only [runCleanups] at hx
+    split at hx
+    · cases hx
+    · rename_i r1 v obs h1
+      have p1 := ih.closure r cl r1 v obs h1
+      have p2 : GPostK t (if cl.tag = t then 1 else 0) r1
+          { r1 with trace := r1.trace ++ [.cleanup cl.tag obs] } := by
+        refine GPostK.of_nodes_eq (evs := [.cleanup cl.tag obs]) rfl (Nat.le_refl _) rfl ?_
+        by_cases h : cl.tag = t <;> simp [tagCount, Event.cleanupTag, h]
+      have p3 := ih.cleanups _ cls r' hx
+      have := GPostK.trans (GPostK.trans p1 p2) p3
+      have e : clCount t (cl :: cls) = 0 + (if cl.tag = t then 1 else 0) + clCount t cls := by
+        simp only [clCount, List.map_cons, List.count_cons, beq_iff_eq]
+        omega
+      rw [e]; exact this
+
+theorem g_update {t f : Nat} (ih : GAll t f) (r : Root) (cur : Id) (r' : Root)
+    (hx : runNodeUpdate (f + 1) r cur = .ok r') : GPost t r r' := by
+  simp only [runNodeUpdate] at hx
+  split at hx
+  · cases hx
+  · rename_i n hn
+    split at hx
+    · cases hx
+    · rename_i r2 h2
+      have p2 : GPost t r r2 := ((CStep.setNode { n with dependencies := [] } hn (.inl rfl)).trans (CStep.unlink cur _ _ r2 h2)).gpost
+      split at hx
+      · cases hx
+      · rename_i n2 hn2
+        split at hx
+        · cases hx
+        · cases hx
+        · rename_i eq cl old hcb hval
+          split at hx
+          · cases hx
+          · rename_i r4 h4
+            have p3 : GPost t r2 (r2.setNode cur { n2 with callback := none, value := none }) :=
+              (CStep.setNode { n2 with callback := none, value := none } hn2 (.inl rfl)).gpost
+            have p4 := ih.dchildren _ cur r4 h4
+            split at hx
+            · cases hx
+            · rename_i r5 new obs h5
+              have pa : GPost t r4 { r4 with current := some cur, tracker := some [] } := GPost.same rfl rfl rfl
+              have p5 := ih.closure _ cl r5 new obs h5
+              generalize hr6 : ({ r5 with tracker := r4.tracker, current := r4.current, trace := r5.trace ++ [Event.run cur obs new] } : Root) = r6 at hx
+              have p6 : GPost t r5 r6 := by
+                subst hr6
+                exact GPostK.of_nodes_eq (evs := [Event.run cur obs new]) rfl (Nat.le_refl _) rfl
+                  (by simp [tagCount, Event.cleanupTag])
+              have p06 : GPost t r r6 := ((((p2.trans p3).trans p4).trans pa).trans p5).trans p6
+              have p7 : GPost t r6 (createDependencyLink r6 (r5.tracker.getD []) cur) := (CStep.link ..).gpost
+              split at hx
+              · simp only [Except.ok.injEq] at hx
+                subst hx; exact p06.trans p7
+              · rename_i n7 hn7
+                simp only [Except.ok.injEq] at hx
+                split at hx
+                · subst hx
+                  have p8 := (CStep.setNode { n7 with callback := some (eq, cl), value := some new, dirty := false }
+                    hn7 (.inl rfl)).gpost (t := t)
+                  exact ((p06.trans p7).trans p8).trans (CStep.markDirty ..).gpost
+                · subst hx
+                  have p8 := (CStep.setNode { n7 with callback := some (eq, cl), value := some old, dirty := false }
+                    hn7 (.inl rfl)).gpost (t := t)
+                  exact (p06.trans p7).trans p8
+
+theorem g_selector {t f : Nat} (ih : GAll t f) (r : Root) (eq : EqKind) (cl : Closure) (r' : Root) (nid : Id)
+    (hx : createSelector (f + 1) r eq cl = .ok (r', nid)) : GPost t r r' := by
+  simp only [createSelector] at hx
+  split at hx
+  · cases hx
+  · rename_i r1 id1 h1
+    have p1 : GPost t r r1 := (CStep.createNode h1).gpost
+    split at hx
+    · cases hx
+    · rename_i r2 v obs h2
+      have pa : GPost t r1 { r1 with current := some id1, tracker := some [] } := GPost.same rfl rfl rfl
+      have p2 := ih.closure _ cl r2 v obs h2
+      generalize hr3 : ({ r2 with tracker := r1.tracker, current := r1.current, trace := r2.trace ++ [Event.run id1 obs v] } : Root) = r3 at hx
+      have p3 : GPost t r2 r3 := by
+        subst hr3
+        exact GPostK.of_nodes_eq (evs := [Event.run id1 obs v]) rfl (Nat.le_refl _) rfl
+          (by simp [tagCount, Event.cleanupTag])
+      have p4 : GPost t r3 (createDependencyLink r3 (r2.tracker.getD []) id1) := (CStep.link ..).gpost
+      have p04 := (((p1.trans pa).trans p2).trans p3).trans p4
+      split at hx
+      · simp only [Except.ok.injEq, Prod.mk.injEq] at hx
+        obtain ⟨rfl, rfl⟩ := hx
+        exact p04
+      · rename_i n4 hn4
+        simp only [Except.ok.injEq, Prod.mk.injEq] at hx
+        obtain ⟨rfl, rfl⟩ := hx
+        exact p04.trans (CStep.setNode { n4 with value := some v, callback := some (eq, cl) } hn4 (.inl rfl)).gpost
+
+theorem g_dchildren {t f : Nat} (ih : GAll t f) (r : Root) (x : Id) (r' : Root)
+    (hx : disposeChildren (f + 1) r x = .ok r') : GPost t r r' := by
+  simp only [disposeChildren] at hx
+  split at hx
+  · simp only [Except.ok.injEq] at hx
+    subst hx; exact GPost.refl _ _
+  · rename_i n hn
+    split at hx
+    · cases hx
+    · rename_i r2 h2
+      split at hx
+      · cases hx
+      · rename_i r3 h3
+        simp only [Except.ok.injEq] at hx
+        subst hx
+        have pa : GPost t r (r.setNode x { n with cleanups := [], children := [] }) :=
+          (CStep.setNode _ hn (.inr rfl)).gpost
+        have pb : GPost t (r.setNode x { n with cleanups := [], children := [] })
+            { (r.setNode x { n with cleanups := [], children := [] }) with tracker := none } :=
+          GPost.same rfl rfl rfl
+        have p2 := ih.cleanups _ n.cleanups r2 h2
+        have pc : GPost t r2
+            { r2 with tracker := (r.setNode x { n with cleanups := [], children := [] }).tracker } :=
+          GPost.same rfl rfl rfl
+        have p3 := ih.dlist _ n.children r3 h3
+        have p4 : GPost t r3 (r3.modify x fun n => { n with context := [] }) :=
+          (CStep.modify r3 x (fun n => { n with context := [] }) (fun _ => rfl)).gpost
+        have all := GPostK.trans (GPostK.trans (GPostK.trans (GPostK.trans (GPostK.trans pa pb) p2) pc) p3) p4
+        refine all.cast fun hg => ?_
+        have : clCount t n.cleanups = 0 := by
+          simp only [clCount]
+          rw [List.count_eq_zero]
+          intro hm
+          obtain ⟨cl, hcl, e⟩ := List.mem_map.1 hm
+          exact hg.2 x cl ⟨n, hn, hcl⟩ e
+        rw [this]
+
+theorem gAll (t : Nat) : ∀ f, GAll t f
+  | 0 => gAll_zero t
+  | f + 1 => by
+    have ih := gAll t f
+    refine ⟨?_, ?_, g_stmt ih, ?_, g_selector ih, g_update ih, ?_, ?_, ?_, ?_, g_dchildren ih, g_cleanups ih, ?_⟩
+    · -- body
+      intro r c b r' c' hx
+      cases b with
+      | nil =>
+        simp only [execBody, Except.ok.injEq, Prod.mk.injEq] at hx
+        obtain ⟨rfl, rfl⟩ := hx; exact GPost.refl _ _
+      | cons s rest =>
+        simp only [execBody] at hx
+        split at hx
+        · cases hx
+        · rename_i r1 c1 h1
+          exact (ih.stmt r c s r1 c1 h1).trans (ih.body r1 c1 rest r' c' hx)
+    · -- inner
+      intro r c b r' c' hx
+      simp only [execInner] at hx
+      split at hx
+      · cases hx
+      · rename_i r1 c1 h1
+        simp only [Except.ok.injEq, Prod.mk.injEq] at hx
+        obtain ⟨rfl, rfl⟩ := hx
+        exact ih.body r c b r1 c1 h1
+    · -- closure
+      intro r cl r' v obs hx
+      simp only [runClosure] at hx
+      split at hx
+      · cases hx
+      · rename_i r1 c1 h1
+        simp only [Except.ok.injEq, Prod.mk.injEq] at hx
+        obtain ⟨rfl, _, _⟩ := hx
+        exact ih.body r _ cl.body r1 c1 h1
+    · -- loop
+      intro r l r' hx
+      cases l with
+      | nil =>
+        simp only [propagateLoop, Except.ok.injEq] at hx
+        subst hx; exact GPost.refl _ _
+      | cons node rest =>
+        simp only [propagateLoop] at hx
+        split at hx
+        · exact ih.loop r rest r' hx
+        · rename_i n hn
+          have p1 : GPost t r (r.setNode node { n with mark := .none }) := (CStep.setNode { n with mark := .none } hn (.inl rfl)).gpost
+          split at hx
+          · split at hx
+            · cases hx
+            · rename_i r2 h2
+              exact (p1.trans (ih.update _ node r2 h2)).trans (ih.loop r2 rest r' hx)
+          · exact p1.trans (ih.loop _ rest r' hx)
+    · -- nodeUpdates
+      intro r l r' hx
+      simp only [propagateNodeUpdates] at hx
+      split at hx
+      · cases hx
+      · rename_i r1 buf h1
+        exact ((CStep.visitStarts l h1).gpost.trans (CStep.of_frame (resetMarks_spec l r1).1).gpost).trans
+          (ih.loop _ buf.reverse r' hx)
+    · -- updates
+      intro r s r' hx
+      simp only [propagateUpdates] at hx
+      split at hx
+      · simp only [Except.ok.injEq] at hx
+        subst hx; exact GPost.same rfl rfl rfl
+      · exact ih.nodeUpdates r [s] r' hx
+    · -- dnode
+      intro r x r' hx
+      simp only [disposeNode] at hx
+      split at hx
+      · cases hx
+      · rename_i r1 h1
+        simp only [Except.ok.injEq] at hx
+        subst hx
+        exact ((CStep.unsubscribe r x).gpost.trans (ih.dchildren _ x r1 h1)).trans (CStep.removeNode r1 x).gpost
+    · -- dlist
+      intro r cs r' hx
+      cases cs with
+      | nil =>
+        simp only [disposeList, Except.ok.injEq] at hx
+        subst hx; exact GPost.refl _ _
+      | cons c cs =>
+        simp only [disposeList] at hx
+        split at hx
+        · cases hx
+        · rename_i r1 h1
+          exact (ih.dnode r c r1 h1).trans (ih.dlist r1 cs r' hx)
+
+theorem tagInv_init : TagInv Root.init := by
+  refine ⟨?_, ?_, ?_⟩
+  · rintro i cl ⟨n, hn, hc⟩
+    obtain ⟨_, rfl⟩ := init_get? hn
+    simp [freshNode] at hc
+  · intro i n hn
+    obtain ⟨_, rfl⟩ := init_get? hn
+    simp [freshNode]
+  · rintro i j a b _ ⟨n, hn, hc⟩ _
+    obtain ⟨_, rfl⟩ := init_get? hn
+    simp [freshNode] at hc
+
+theorem runOps_tagInv (fuel : Nat) : ∀ (ops : List Stmt) (r : Root) (env : List Handle) (r' : Root)
+    (env' : List Handle), TagInv r → runOps fuel ops r env = .ok (r', env') → TagInv r'
+  | [], r, env, r', env', hT, hx => by
+    simp only [runOps, Except.ok.injEq, Prod.mk.injEq] at hx
+    obtain ⟨rfl, rfl⟩ := hx
+    exact hT
+  | s :: rest, r, env, r', env', hT, hx => by
+    simp only [runOps] at hx
+    split at hx
+    · cases hx
+    · rename_i r1 c1 h1
+      exact runOps_tagInv fuel rest r1 c1.env r' env' (((gAll 0 fuel).stmt r _ s r1 c1 h1).inv hT) hx
+
+/-- **exactly once**: in a state whose cleanup tags are pairwise distinct, a successful
+`disposeNode … id` logs exactly one event for every cleanup registered on `id` -/
+theorem dispose_tagCount {fuel : Nat} {r r' : Root} {id : Id} {n : Node} (hT : TagInv r)
+    (hn : r.get? id = some n) (hx : disposeNode fuel r id = .ok r') :
+    ∀ cl ∈ n.cleanups, ∃ evs, r'.trace = r.trace ++ evs ∧ tagCount cl.tag evs = 1 := by
+  intro cl hcl
+  cases fuel with
+  | zero => simp [disposeNode] at hx
+  | succ f =>
+    simp only [disposeNode] at hx
+    split at hx
+    · cases hx
+    · rename_i r1 h1
+      simp only [Except.ok.injEq] at hx
+      subst hx
+      have c0 := CStep.unsubscribe r id
+      have hT0 : TagInv (unsubscribe r id) := (c0.gpost (t := cl.tag)).inv hT
+      have hn0 : ∃ n0, (unsubscribe r id).get? id = some n0 ∧ cl ∈ n0.cleanups := by
+        obtain ⟨g, hg, hfields⟩ := unsubscribe_get?_fields r id id
+        rw [hn] at hg
+        exact ⟨g n, hg, by rw [(hfields n).2.2.2.2.1]; exact hcl⟩
+      obtain ⟨n0, hg, hcl0⟩ := hn0
+      generalize unsubscribe r id = r0 at *
+      cases f with
+      | zero => simp [disposeChildren] at h1
+      | succ f =>
+        simp only [disposeChildren, hg] at h1
+        split at h1
+        · cases h1
+        · rename_i r2 h2
+          split at h1
+          · cases h1
+          · rename_i r3 h3
+            simp only [Except.ok.injEq] at h1
+            subst h1
+            have ca := CStep.setNode { n0 with cleanups := [], children := [] } hg (.inr rfl)
+            have hgone : Gone cl.tag (r0.setNode id { n0 with cleanups := [], children := [] }) := by
+              refine ⟨by rw [ca.nextTag]; exact hT0.lt id cl ⟨n0, hg, hcl0⟩, ?_⟩
+              rintro i cl' ⟨m, hi, hc⟩ e
+              rw [Root.get?_setNode] at hi
+              split at hi
+              · cases hi; cases hc
+              · rename_i hne
+                have hii : i ≠ id := fun h => hne ⟨h, Root.lt_size_of_get? hg⟩
+                exact hT0.disj i id cl' cl hii ⟨m, hi, hc⟩ ⟨n0, hg, hcl0⟩ e
+            generalize r0.setNode id { n0 with cleanups := [], children := [] } = ra at *
+            have pb : GPost cl.tag ra { ra with tracker := none } := GPost.same rfl rfl rfl
+            have p2 := (gAll cl.tag f).cleanups _ n0.cleanups r2 h2
+            have pc : GPost cl.tag r2 { r2 with tracker := ra.tracker } := GPost.same rfl rfl rfl
+            have p3 := (gAll cl.tag f).dlist _ n0.children r3 h3
+            have p4 : GPost cl.tag r3 (r3.modify id fun n => { n with context := [] }) :=
+              (CStep.modify r3 id (fun n => { n with context := [] }) (fun _ => rfl)).gpost
+            have p5 : GPost cl.tag _ (removeNode (r3.modify id fun n => { n with context := [] }) id) :=
+              (CStep.removeNode _ id).gpost
+            have all := GPostK.trans (GPostK.trans (GPostK.trans (GPostK.trans (GPostK.trans pb p2) pc) p3) p4) p5
+            obtain ⟨_, evs, e, hc⟩ := all.gone hgone
+            refine ⟨evs, by rw [e, ca.trace, c0.trace], ?_⟩
+            rw [hc]
+            have : clCount cl.tag n0.cleanups = 1 := by
+              simp only [clCount]
+              rw [List.Nodup.count (hT0.nodup id n0 hg), if_pos (List.mem_map.2 ⟨cl, hcl0, rfl⟩)]
+            rw [this]
+
+/-! ## Part B (D13): `resetMarks` and the nested `dfs` -/
+
+theorem resetMarks_get?_of_not_mem : ∀ (ss : List Id) (r : Root) (j : Id), j ∉ ss →
+    (resetMarks r ss).get? j = r.get? j
+  | [], _, _, _ => rfl
+  | s :: ss, r, j, hj => by
+    have hjs : j ≠ s := fun e => hj (by simp [e])
+    have hjss : j ∉ ss := fun h => hj (by simp [h])
+    rw [resetMarks]
+    cases hs : r.get? s with
+    | none => exact resetMarks_get?_of_not_mem ss r j hjss
+    | some n =>
+      simp only
+      rw [resetMarks_get?_of_not_mem ss _ j hjss, Root.get?_setNode]
+      simp [hjs]
+
+theorem resetMarks_start_none : ∀ (ss : List Id) (r : Root) (s : Id), s ∈ ss →
+    ∀ n, (resetMarks r ss).get? s = some n → n.mark = .none
+  | x :: ss, r, s, hs, n, hn => by
+    rw [resetMarks] at hn
+    by_cases hmem : s ∈ ss
+    · cases hx : r.get? x with
+      | none => rw [hx] at hn; exact resetMarks_start_none ss r s hmem n hn
+      | some m => rw [hx] at hn; exact resetMarks_start_none ss _ s hmem n hn
+    · have hsx : s = x := by
+        simp only [List.mem_cons] at hs
+        rcases hs with h | h
+        · exact h
+        · exact absurd h hmem
+      subst hsx
+      cases hx : r.get? s with
+      | none =>
+        rw [hx] at hn
+        simp only at hn
+        rw [resetMarks_get?_of_not_mem ss r s hmem, hx] at hn; cases hn
+      | some m =>
+        rw [hx] at hn
+        simp only at hn
+        rw [resetMarks_get?_of_not_mem ss _ s hmem, Root.get?_setNode_self hx] at hn
+        cases hn; rfl
+
+/-- every node that a successful search turns from unmarked to `perm` is pushed by that search -/
+theorem dfs_pushes_aux : ∀ fuel : Nat,
+    (∀ r buf cur r' buf', dfs fuel r buf cur = some (r', buf') →
+      ∃ new, buf' = buf ++ new ∧ ∀ i n n', r.get? i = some n → n.mark = .none →
+        r'.get? i = some n' → n'.mark = .perm → i ∈ new) ∧
+    (∀ r buf cs r' buf', dfsList fuel r buf cs = some (r', buf') →
+      ∃ new, buf' = buf ++ new ∧ ∀ i n n', r.get? i = some n → n.mark = .none →
+        r'.get? i = some n' → n'.mark = .perm → i ∈ new) := by
+  intro fuel
+  induction fuel with
+  | zero => exact ⟨fun _ _ _ _ _ h => by simp [dfs] at h, fun _ _ _ _ _ h => by simp [dfsList] at h⟩
+  | succ fuel ih =>
+    refine ⟨?_, ?_⟩
+    · intro r buf cur r' buf' h
+      rw [dfs] at h
+      split at h
+      · cases h
+        refine ⟨[], by simp, ?_⟩
+        intro i n n' hn hm hn' hm'
+        rw [hn] at hn'; cases hn'; rw [hm] at hm'; cases hm'
+      · rename_i nc hc
+        split at h
+        · cases h
+        · cases h
+          refine ⟨[], by simp, ?_⟩
+          intro i n n' hn hm hn' hm'
+          rw [hn] at hn'; cases hn'; rw [hm] at hm'; cases hm'
+        · simp only at h
+          split at h
+          · cases h
+          · rename_i r2 buf2 hl
+            cases h
+            obtain ⟨new2, e2, p2⟩ := ih.2 _ _ _ _ _ hl
+            refine ⟨new2 ++ [cur], by rw [e2, List.append_assoc], ?_⟩
+            intro i n n' hn hm hn' hm'
+            by_cases hic : i = cur
+            · simp [hic]
+            · rw [Dfs.get?_modify, if_neg hic] at hn'
+              have hn1 : (r.setNode cur { nc with mark := .temp }).get? i = some n := by
+                rw [Dfs.get?_setNode_of_get? hc, if_neg hic]; exact hn
+              exact List.mem_append_left _ (p2 i n n' hn1 hm hn' hm')
+    · intro r buf cs r' buf' h
+      cases cs with
+      | nil =>
+        rw [dfsList] at h; cases h
+        refine ⟨[], by simp, ?_⟩
+        intro i n n' hn hm hn' hm'
+        rw [hn] at hn'; cases hn'; rw [hm] at hm'; cases hm'
+      | cons c cs =>
+        rw [dfsList] at h
+        split at h
+        · cases h
+        · rename_i r1 buf1 h1
+          obtain ⟨new1, e1, p1⟩ := ih.1 _ _ _ _ _ h1
+          obtain ⟨new2, e2, p2⟩ := ih.2 _ _ _ _ _ h
+          refine ⟨new1 ++ new2, by rw [e2, e1, List.append_assoc], ?_⟩
+          intro i n n' hn hm hn' hm'
+          obtain ⟨n1, hn1, hmk⟩ := dfs_marks h1 i n hn
+          rcases hmk with e | ⟨_, e⟩
+          · exact List.mem_append_right _ (p2 i n1 n' hn1 (e.trans hm) hn' hm')
+          · exact List.mem_append_left _ (p1 i n n1 hn hm hn1 e)
+
+/-- **D13, the repaired behaviour**: a search from a live unmarked node `s` pushes `s` and every live
+unmarked dependent of `s` -/
+theorem dfs_traverses {fuel : Nat} {r r' : Root} {buf buf' : List Id} {s d : Id} {ns nd : Node}
+    (hs : r.get? s = some ns) (hms : ns.mark = .none) (hd : d ∈ ns.dependents)
+    (hnd : r.get? d = some nd) (hmd : nd.mark = .none)
+    (hx : dfs fuel r buf s = some (r', buf')) :
+    ∃ new, buf' = buf ++ new ∧ d ∈ new ∧ s ∈ new := by
+  cases fuel with
+  | zero => simp [dfs] at hx
+  | succ fuel =>
+    rw [dfs] at hx
+    simp only [hs, hms] at hx
+    split at hx
+    · cases hx
+    · rename_i r2 buf2 hl
+      cases hx
+      obtain ⟨new2, e2, p2⟩ := (dfs_pushes_aux fuel).2 _ _ _ _ _ hl
+      refine ⟨new2 ++ [s], by rw [e2, List.append_assoc], ?_, by simp⟩
+      have hF := Frame.setMark hs .temp
+      have hda : (r.setNode s { ns with mark := .temp }).alive d = true := by
+        rw [hF.alive]; exact Dfs.alive_of_get? hnd
+      obtain ⟨n2, hn2, hp2⟩ := (dfsList_post hl).2 d hd hda
+      by_cases hds : d = s
+      · -- a self-loop: `s` is `temp` during the search, so the search would have failed
+        exfalso
+        subst hds
+        have h1 : (r.setNode d { ns with mark := .temp }).get? d = some { ns with mark := .temp } := by
+          rw [Dfs.get?_setNode_of_get? hs, if_pos rfl]
+        obtain ⟨n3, hn3, hmk⟩ := (dfsList_post hl).1.marks d _ h1
+        rw [hn2] at hn3; cases hn3
+        rcases hmk with e | ⟨e, _⟩
+        · rw [hp2] at e; cases e
+        · cases e
+      · have h1 : (r.setNode s { ns with mark := .temp }).get? d = some nd := by
+          rw [Dfs.get?_setNode_of_get? hs, if_neg hds]; exact hnd
+        exact List.mem_append_left _ (p2 d nd n2 h1 hmd hn2 hp2)
+
+/-- **D13, the defect**: a search from a node still marked `perm` returns at once -/
+theorem dfs_perm_noop {fuel : Nat} {r : Root} {buf : List Id} {s : Id} {ns : Node}
+    (hs : r.get? s = some ns) (hms : ns.mark = .perm) : dfs (fuel + 1) r buf s = some (r, buf) := by
+  rw [dfs]; simp only [hs, hms]
 
 end SycVerif.Reactive
